@@ -142,2098 +142,1616 @@ match calculatedFrom as msg_type { [
 }
     ,
 }")).
-Eval vm_compute in ("<<<M1355>>>" ++ check (runes_of_ascii "packet float {  @lengthOf(
-matchKey )	int64	options1 @calculatedFrom( ""{,}"" )`it's`, repeat
-i32 msg_type `a\` ,  options1  @calculatedFrom(""it's""
-)  `// not a comment`, @lengthOf( roots) u8 repeatCount
-`say ""hi""` ,
-    int16 len, char[]
-chars @lengthOf(
-    repeatCount ) ,
-    /// triple
-    @calculatedFrom(""{,}"" ) match body as i64_{ ""x y""
-    :	pack  ,
-//
-// @lengthOf(
-}	,
-    A
-{ i8i8 @calculatedFrom(""a	b"" ),} // c
-, @leftPad( '\x00' ) /// triple
-metadata { repeat Foo	{	Z9_
-//x
-// `tick` ""quote"" 'q'
-trueish , } , }
-, @calculatedFrom(
+Eval vm_compute in ("<<<M4122>>>" ++ check (runes_of_ascii "
 // " ++ [27880; 37322]%N ++ runes_of_ascii "
-/// triple
-""" ++ [233]%N ++ runes_of_ascii "t" ++ [233]%N ++ runes_of_ascii """ // " ++ [128512]%N ++ runes_of_ascii " emoji
-)
-@lengthOf( lengthOf	)
-    // packet A { u8 x, }
-    @rightPad  (
-    '\x00' // " ++ [128512]%N ++ runes_of_ascii " emoji
-)
-repeat
-    char[ 255] // c
-string_`a\` ,
-    }
-MetaData
-    trueish {o
-T	,	char[ 1 ] BodyLength`{ , }` , } packet Logon
-{ @calculatedFrom(""a\\"") // `tick` ""quote"" 'q'
-match roots  as
-As { 255:stringy , [ // packet A { u8 x, }
-10 , """" , """ ++ [233]%N ++ runes_of_ascii "t" ++ [233]%N ++ runes_of_ascii """
-, ""a\""b"" ,
-    ""\" ++ [233]%N ++ runes_of_ascii """ ]
-:  _x  , }
-, }	packet
-    i64_	{ // a // b
-@tag( 007
-)float32	metadata`two words`
-// @lengthOf(
-// `tick` ""quote"" 'q'
-,	match Header as matchKey{	""`tick`"" : Pad ,[""a\""b"" ,""a	b""
-    , 65535
-// packet A { u8 x, }
-// packet A { u8 x, }
-,
-10  ,""1""
-,  ""a\""b"" , ""abc"",
-""`tick`""] : rootA	,[255 , ""a\""b"" ]:// trailing space 
-body ,
-    // `tick` ""quote"" 'q'
-    ""\n""	: stringy
-    ,
-    [ 0  , ""\" ++ [233]%N ++ runes_of_ascii """ ,	""\" ++ [233]%N ++ runes_of_ascii """ , 65535 , 3
-    ,0 ,""1"" ,
-//x
-// trailing space 
-42 ]
-:Z9_,
-// a // b
-// @lengthOf(
-""a\""b"" //
-: string_ , } ,len
-MetaDataX ,u @lengthOf(calculatedFrom  ) `a\` , Foo {
-    match crc
-// @lengthOf(
-// `tick` ""quote"" 'q'
-as
-    // trailing space 
-    asx // " ++ [27880; 37322]%N ++ runes_of_ascii "
-{
-""1"":leftPad
-    ,
-""" ++ [128512]%N ++ runes_of_ascii """
-: leftPad
-[ ""{,}""  ] : string_
-, ""CRC32"":
-crc, 42 :u
-    }
-    ,
-    match asx as u {
-    [4294967296 ,1	]:	zchar ,//x
-} ,	string body ,
-    // " ++ [128512]%N ++ runes_of_ascii " emoji
-    lengthOf asx
-    `two words`
-    // trailing space 
-    , } ,charz @calculatedFrom( ""abc"" ) // trailing space 
-`{ , }` ,char[
-// a // b
-//x
-0123456789]
-    // a // b
-    o @lengthOf( packetx )
-    // " ++ [128512]%N ++ runes_of_ascii " emoji
-    , }")).
-Eval vm_compute in ("<<<M4021>>>" ++ check (runes_of_ascii "packet crc {
-    Logon {
-        u64 Z9_ @lengthOf(A),
-        f64 int,//
-        match BodyLength as MetaDataX {
-            """ ++ [28040; 24687]%N ++ runes_of_ascii """ : msg_type,
-            00 : falsey,
-            00 : tag,
-            ""it's"" : options1,
-            007 : len,
-            65535 : falsey,
-        },
-        repeat char[] int,//x
-    },
-}
-
-root packet repeatCount {
-}
-
-packet BodyLength {
-    stringy {
-        len `
-                `,
-    },
-    repeat i32 int,
-    match Foo as crc {
-        0 : i8i8,
-        3 : chars,
-    },
-    repeat x {
-        zchar[007] chars,
-        repeat chars {
-            repeat stringy {
-                x_y_z u128,
-                string options1 `two words`,
-                char[0123456789] body `crlf
-                                line`,
-                repeat int32 i64_,
-            },
-            char[42] crc,
-            Pad `tab	here`,
-            f32a {
-                lengthOf f32a,
-            },
-        },
-    },
-    i8 stringy,
-    f32a {
-        match body as body {
-            ""\" ++ [233]%N ++ runes_of_ascii """ : u128,
-        },
-        repeat string len `a\`,
-        repeat As asx `it's`,
-    },
-}
-
-MetaData rootA {
-    metadata metadata,
-    A _x,
-    u T,
-    char[3] a1 `line1
-        line2`,
-    zchar[4294967296] packetx `{ , }`,
-    string Logon `" ++ [233]%N ++ runes_of_ascii "`,
-}
-
-packet BodyLength {
-    @calculatedFrom(""\n"")
-    int8 a1 @lengthOf(falsey),//
-    @calculatedFrom(""\" ++ [233]%N ++ runes_of_ascii """)
-    @tag(0123456789)
-    lengthOf,
-    @tag(007)
-    //
-    match Logon as f32a {
-        0 : zchar,
-    },
-    @lengthOf(i8i8)
-    match options1 as string_ {
-        [
-            00, 4294967296, 4294967296, 1, ""a\""b"",
-            ""a	b""
-        ] : A,
-    },
-}")).
-Eval vm_compute in ("<<<M903>>>" ++ check (runes_of_ascii "// a // b
-packet //x
-leftPad{
-repeat// " ++ [27880; 37322]%N ++ runes_of_ascii "
-crc , repeat f32a{ roots i8i8 ,// trailing space 
-string_ msg_type ,
-    u128 {  match
-u as  o {
-""1"" : u8x ,  7: string_
-,""" ++ [233]%N ++ runes_of_ascii "t" ++ [233]%N ++ runes_of_ascii """ :trueish ,
-}, u16
-trueish
-    @lengthOf(_x)`a\` , }, u128{ x_y_z ,
-    Packet @lengthOf( /// triple
-rootA ) `{ , }` , } , }
-/// triple
-/// triple
-, @calculatedFrom( // `tick` ""quote"" 'q'
-""CRC32"" ) rootA@calculatedFrom(""\" ++ [233]%N ++ runes_of_ascii """ )
-    //
-    `tab	here`
-,
-// " ++ [128512]%N ++ runes_of_ascii " emoji
-// " ++ [27880; 37322]%N ++ runes_of_ascii "
-match A as
-    a1 { 7:
-u128 ,[
-""// no comment"" // " ++ [27880; 37322]%N ++ runes_of_ascii "
-]
-    :  stringy """" :
-    i8i8 , 65535 : msg_type
-[7 ,""a\""b""
-,
-    65535  ,255 ,4294967296] : packetx// " ++ [27880; 37322]%N ++ runes_of_ascii "
-,
-    }, }	packet
-//x
-//
-a1
-    { uint16 tag,
-// " ++ [27880; 37322]%N ++ runes_of_ascii "
-// trailing space 
-Packet `a\` , }packet tag { } packet  msg_type
-{ options1
-    int `u8 x,` ,i64 calculatedFrom  , match rootA as
-pack	{ 0 : i64_ //	t
-,[""abc""
-    , 42, 42
-, 7 ] :
-zchar
-7
-:u8x , ""{,}"" //	t
-: len ,
-    } ,match packetx as i8i8 { 65535
-    : Foo """ ++ [28040; 24687]%N ++ runes_of_ascii """:
-repeatCount
-, }
-    , // a // b
-@rightPad // `tick` ""quote"" 'q'
-(
-' '
-) string Packet
-@lengthOf( _x
-) ,
-matchKey { // " ++ [27880; 37322]%N ++ runes_of_ascii "
-zchar
-    { f64
-    // `tick` ""quote"" 'q'
-    falsey
-//
-// " ++ [27880; 37322]%N ++ runes_of_ascii "
-`a\` , uint64 x_y_z `a\` , }
-    , } ,//x
-@rightPad
-// c
-// trailing space 
-(
-'0' )repeat
-    leftPad { uint32 stringy
-    // a // b
-    @calculatedFrom(
-"""")
-// a // b
-/// triple
-,
-zchar[
-    0123456789
-    ] MetaDataX`tab	here` //	t
-, char len`line1
-line2` , } , }root// @lengthOf(
-packet Header
-    // @lengthOf(
-    {}
-")).
-Eval vm_compute in ("<<<M3732>>>" ++ check (runes_of_ascii "  options
-    { StringPrefixLenType
-
+  options {  zchar	// a // b
+	=
+""x y"" ; options1 
 =
-
-u16;  ArrayPrefixLenType  = u16
-    ;
-}
-
-packet
-SampleBinary {
-    uint16 MsgType
-
-    `" ++ [28040; 24687; 31867; 22411]%N ++ runes_of_ascii "`
-
-,	u16 BodyLenght
-	@lengthOf(Body
-)
-`" ++ [28040; 24687; 20307; 38271; 24230]%N ++ runes_of_ascii "` ,  match 
-MsgType 
-as	Body  {
-
-1 :Logon 
-,	2:
-    Logout,3
-:
-    Heartbeat  ,
-4 
-:
-	RiskControlRequest
-,
-    5:
-RiskControlResponse
-
-    , },
-@calculatedFrom(
-""CRC32""
-
-)  u32 
-Ckecksum `" ++ [26657; 39564; 21644]%N ++ runes_of_ascii "`
-
-,	}  packet 
-Logon
-	{
-
-    @leftPad
-    ( '0' )
-
-char[10  ]
-
-    UserName 
-`" ++ [29992; 25143; 21517]%N ++ runes_of_ascii "`	, string  Password
-
-`" ++ [23494; 30721]%N ++ runes_of_ascii "`	,	uint64 ClientId `" ++ [23458; 25143; 31471]%N ++ runes_of_ascii "ID` , u16
-HeartbeatInterval
-`" ++ [24515; 36339; 38388; 38548]%N ++ runes_of_ascii "`	,  }
-
-packet
-    Logout
-{
-
-@rightPad ( '0'  )char[
-
-10
-]	UserName
-`" ++ [29992; 25143; 21517]%N ++ runes_of_ascii "` ,
-
-uint64
-ClientId
-
-`" ++ [23458; 25143; 31471]%N ++ runes_of_ascii "ID`
-,
-}
-packet Heartbeat	{ }
-
-    packet
-
-RiskControlRequest
-    {
-string	UniqueOrderId`" ++ [21807; 19968; 35746; 21333; 21495]%N ++ runes_of_ascii "` , char[ 
-16
-
-    ] ClOrdID`" ++ [23458; 25143; 35746; 21333; 21495]%N ++ runes_of_ascii "`
-	, char[	3]	MarketID	`" ++ [24066; 22330]%N ++ runes_of_ascii "id`	,char[
-    12
-	]SecurityID `" ++ [35777; 21048; 20195; 30721]%N ++ runes_of_ascii "` 
-, 
-char Side
-`" ++ [20080; 21334; 26041; 21521]%N ++ runes_of_ascii "` ,
-	char
-
-    OrderType
-`" ++ [35746; 21333; 31867; 22411]%N ++ runes_of_ascii "`,
-	u64
-Price
-    `" ++ [20215; 26684]%N ++ runes_of_ascii "`
-,
-
-u32  Qty
-`" ++ [25968; 37327]%N ++ runes_of_ascii "`
-,
-
-repeat
-	string ExtraInfo
-`" ++ [38468; 21152; 20449; 24687]%N ++ runes_of_ascii "`
-    ,  repeat 
-SubOrder
-	{
-    char[
-
-    16  ] ClOrdID
-
-    `" ++ [23376; 35746; 21333; 21495]%N ++ runes_of_ascii "`
-	,
-u64 Price`" ++ [23376; 35746; 21333; 20215; 26684]%N ++ runes_of_ascii "` ,	u32	Qty  `" ++ [23376; 35746; 21333; 25968; 37327]%N ++ runes_of_ascii "`
-
-,
-
-    }
-
-,
-}	packet
-	RiskControlResponse
-
-    {
-    string	UniqueOrderId
-`" ++ [21807; 19968; 35746; 21333; 21495]%N ++ runes_of_ascii "`	,
-    i32
-Status `" ++ [29366; 24577]%N ++ runes_of_ascii "`
-
-    ,  string Msg`" ++ [32467; 26524; 20449; 24687]%N ++ runes_of_ascii "`
-, repeat  Detail, 
-}
-    packet Detail  {
-	string  RuleName
-    `" ++ [35268; 21017; 21517; 31216]%N ++ runes_of_ascii "`  , u16 Code  `" ++ [21407; 22240; 20195; 30721]%N ++ runes_of_ascii "`	,}")).
-Eval vm_compute in ("<<<M3635>>>" ++ check (runes_of_ascii "// top
-options
-    // c0
-{ // c1a
-  // c1b
-LittleEndian // c2
-= false ; // c5
-ArrayPrefixLenType = u8 ; // c9
-FixedStringPadChar =
-    // c11
-'0' // c12a
-  // c12b
-; // c13a
-  // c13b
-} // c14a
-  // c14b
-packet
-    // c15
-Order
-    // c16
-{ // c17a
-  // c17b
-InNote94 // c18
-{ f32
-    // c20
-f1
-    // c21
-, // c22a
-  // c22b
-f64 // c23
-Side2 , // c25
-repeat // c26
-InTail47 // c27a
-  // c27b
-{ char[] // c29
-seqNo // c30
-,
-    // c31
-char[]
-    // c32
-Tail // c33a
-  // c33b
-, // c34a
-  // c34b
-char[] // c35a
-  // c35b
-lastPx
-    // c36
-, } , } , // c41a
-  // c41b
-zchar[
-    // c42
-7 // c43a
-  // c43b
-] // c44
-f1 , // c46a
-  // c46b
-u8
-    // c47
-Side2 ,
-    // c49
-}
-    // c50
-root packet // c52a
-  // c52b
-Reject
-    // c53
-{ // c54a
-  // c54b
-repeat
-    // c55
-char[
-    // c56
-4 // c57a
-  // c57b
-] Flags
-    // c59
-, // c60a
-  // c60b
-InPrice63 { // c62a
-  // c62b
-InSeqno41 // c63
-{ // c64
-repeat // c65a
-  // c65b
-i8
-    // c66
-OrderId // c67
-, // c68
-repeat
-    // c69
-i32 // c70a
-  // c70b
-clOrdID // c71
-, // c72
-char[ 9 ]
-    // c75
-tag7 // c76a
-  // c76b
-, // c77a
-  // c77b
-char[] // c78
-lastPx , // c80
-} // c81
-, // c82
-Order // c83
-, uint8
-    // c85
-Side2
-    // c86
-, } // c88a
-  // c88b
-, } ")).
-Eval vm_compute in ("<<<M1068>>>" ++ check (runes_of_ascii "
-packet Packet{
-    @leftPad
-// a // b
-// a // b
-( ' ' )
-    repeat As{ repeatCount
-@calculatedFrom(""" ++ [28040; 24687]%N ++ runes_of_ascii """
-) ,	repeat pack { /// triple
-x {match As
-as uint8x  { [
-    ""1""
-, ""\" ++ [233]%N ++ runes_of_ascii """ , 00 ,""it's"",	""a\""b"" ,
-    ""\" ++ [233]%N ++ runes_of_ascii """
-] :
-// " ++ [128512]%N ++ runes_of_ascii " emoji
-// packet A { u8 x, }
-pack[ ""a\""b"",""" ++ [233]%N ++ runes_of_ascii "t" ++ [233]%N ++ runes_of_ascii """
-    ,
-65535
-    ,	""a	b"" ,
-""`tick`"" ,
-//	t
-//x
-""\n""
-// " ++ [128512]%N ++ runes_of_ascii " emoji
-// packet A { u8 x, }
-]: As
-,
-0123456789  : float , /// triple
-""a	b"" :
-    x_y_z
-, [ ""abc"" ] :
-    stringy // trailing space 
-} ,  f64
-    MetaDataX ,zchar[
-0123456789 ] charz ,
-}, crc // trailing space 
-{ char[]x_y_z // c
-`
-`
-,	match Z9_
-    as i8i8	{  00	:
-// c
-//	t
-charz, } ,}	,	i8 // a // b
-_x
-,
-repeat falsey
-    {
-    // `tick` ""quote"" 'q'
-    char[
-65535 // a // b
-]
-    Packet @calculatedFrom(
-""x y""
-) `line1
-line2` ,	} ,}
-, f32a // packet A { u8 x, }
-MetaDataX
-    `" ++ [233]%N ++ runes_of_ascii "`
-, repeat//	t
-matchKey{int32
-int `crlf
-line`	,
-} ,} , float{ string	As
-`// not a comment` , As
-, stringy ,
-    } ,
-@tag( 00	) Foo ,	repeat int16	Z9_, @lengthOf(u8x )
-    u8x{ repeat	uint64 asx ,
-// packet A { u8 x, }
-//
-repeat int
-    // packet A { u8 x, }
-    `` , char[
-1 ] uint8x @calculatedFrom(
-    ""\" ++ [233]%N ++ runes_of_ascii """
-) ,
-    } ,  x , }
-")).
-Eval vm_compute in ("<<<M983>>>" ++ check (runes_of_ascii "packet Packet { MetaDataX	{
-// " ++ [128512]%N ++ runes_of_ascii " emoji
-// trailing space 
-zchar[
-    // @lengthOf(
-    255 ] crc
-    @calculatedFrom( ""`tick`"") `doc`
-    , // c
-},
-u32 As`
-`,
-    @lengthOf(
-chars) f64
-leftPad	`// not a comment` ,
-repeat char[ 3 ] len  `doc`
-, match
-u8x as
-chars {4294967296: f32a
-    , [
-255, 4294967296 ]: string_ 0 :chars , // packet A { u8 x, }
-""a\""b"" : options1 7
-: falsey ,	} , @lengthOf( // c
-len
-// `tick` ""quote"" 'q'
-// @lengthOf(
-) repeat char[10
-    // " ++ [27880; 37322]%N ++ runes_of_ascii "
-    ]
-Header `crlf
-line`, // " ++ [27880; 37322]%N ++ runes_of_ascii "
-rootA
-asx
-`two words` ,
-}packet //x
-Packet{ @tag(//
-00 ) u16 asx
-    ,	@calculatedFrom( ""a\""b"" ) charz @lengthOf( a1 )
-, @lengthOf( asx)
-    repeat string
-    falsey
-, u32 options1@lengthOf(
-    packetx) `it's`//x
-,} packet
-metadata { int16 i8i8 ,
-i32 tag
-//x
-//
-`line1
-line2` ,	@calculatedFrom( ""a\\""
-//x
-//	t
-) // trailing space 
-@lengthOf( repeatCount )
-MetaDataX {
-repeat
-x_y_z,  }
-,lengthOf tag `" ++ [233]%N ++ runes_of_ascii "`
-    ,
-    }
-MetaData//	t
-Foo
-{
-body chars
-, char[] asx `// not a comment`,char u8x
-//
-// a // b
-, x trueish `crlf
-line`
-, char[] options1
-`u8 x,`
-, }")).
-Eval vm_compute in ("<<<M4495>>>" ++ check (runes_of_ascii "
-root  packet  options1  {
-uint64
-
-x , @lengthOf(
-
-    i8i8 ) repeat
-	char[
-	0
-
-    ] len
-,crc`u8 x,`
-    ,As @calculatedFrom(
-""a	b""
-	/// triple
-
-  // @lengthOf(
-  )
-
-    ,
-@rightPad
-	(
-    )
-    @calculatedFrom( ""1"" 	 //x
-
-	)
-	string charz
-@calculatedFrom(""" ++ [233]%N ++ runes_of_ascii "t" ++ [233]%N ++ runes_of_ascii """  )
-
-`two words`, @tag(	00)
-
-f32a 
-      //x
-		//	t
-	{ char[]
-trueish
-
-@lengthOf(//	t
-    MetaDataX ) `// not a comment`
-,repeat
-
-    int16
-float ,
-body
-
-`u8 x,`	, 
-}//x
-		, @calculatedFrom(	// a // b
-  	""x y""
-) 
-
-    //x
-	//
-  match
-Header
-as 
-falsey {
-
-7:f32a
-
-    ,}
-	,@tag( 00 ) match zchar
-as
-Logon{
-[
-
-    7
-	,
-
-    7
-,
-	""`tick`""
-	,
-
-""\" ++ [233]%N ++ runes_of_ascii """  ,
-
-    255 ] : 
-A,	[1]
-	:
-Z9_	[""1""  ,1,	""`tick`""
-,
-""a	b"", 
-
-    //	t
-// a // b
-	""\" ++ [233]%N ++ runes_of_ascii """ 
-,
-
-    """ ++ [28040; 24687]%N ++ runes_of_ascii """]	: 
-Pad
-	[""1""  // " ++ [128512]%N ++ runes_of_ascii " emoji
-  ,
-    """" 
-,
-	1, 00
-
-,
-    """ ++ [128512]%N ++ runes_of_ascii """	,""1"" , 
-1 ,
-	""{,}"" ]
-	: Z9_,  10:  A
-
-,
-
-    """ ++ [233]%N ++ runes_of_ascii "t" ++ [233]%N ++ runes_of_ascii """ 
-:  u8x 
-    // " ++ [128512]%N ++ runes_of_ascii " emoji
-  , } 
-, repeat
-
-    int64	metadata , @rightPad
-(  '0'
-    )
-    match  tag
-
-as
-	BodyLength
-
-{  ""CRC32"":
-asx
-    ,  10 :metadata ,
-    }, }
-")).
-Eval vm_compute in ("<<<M806>>>" ++ check (runes_of_ascii "packet repeatCount
-// @lengthOf(
-//
-{ repeat	Header, char[
-42
-    ]rootA ``
-    ,@lengthOf(
-    stringy )repeat int16 leftPad
-,repeat // `tick` ""quote"" 'q'
-crc
-    {
-//x
-// " ++ [128512]%N ++ runes_of_ascii " emoji
-zchar[00  ]body
-    @lengthOf( Foo) , repeat Logon { MetaDataX
-    @lengthOf(trueish ) , uint8	asx@calculatedFrom( ""\" ++ [233]%N ++ runes_of_ascii """) , metadata {
-uint8x @lengthOf( stringy ) ,
-    repeat  BodyLength
-metadata `say ""hi""` ,}
-//x
-//
-, repeat char[] u, // trailing space 
-}
-, int16 matchKey ``
-, char[]// trailing space 
-u8x
-@lengthOf(string_ )
-    ,	} , // @lengthOf(
-match Logon
-as	zchar { [""x y"" , 65535// c
-,  10 ] : chars [
-    ""{,}""
-    ,
-""a\""b""]
-:leftPad ,
-    //	t
-    65535 : metadata//
-,[
-    10 , 7 // a // b
-, ""// no comment""
-    ,// `tick` ""quote"" 'q'
-0
-    , 65535 , // `tick` ""quote"" 'q'
-""abc""
-, 7 // " ++ [27880; 37322]%N ++ runes_of_ascii "
-,42
-    ]  :MetaDataX
-},
-    repeat int8	packetx `// not a comment` ,// a // b
-} packet
-    x // a // b
-{ u16 roots
-,
-} options{ int  =  4294967296 u8x = false ; }")).
-Eval vm_compute in ("<<<M4085>>>" ++ check (runes_of_ascii "packet leftPad {
-    char[] matchKey @lengthOf(MetaDataX),
-}
-
-options {
-}
-
-packet f32a {
-    @lengthOf(int)
-    @leftPad('\x00')
-    @calculatedFrom(""\" ++ [233]%N ++ runes_of_ascii """)
-    repeat T BodyLength,
-    @leftPad('\x00')
-    uint16 body @calculatedFrom(""{,}"") `" ++ [233]%N ++ runes_of_ascii "`,
-    @leftPad(' ')
-    match Z9_ as Foo {
-        7 : MetaDataX,
-        4294967296 : options1,
-        ""x y"" : A,
-    },
-    repeat zchar[10] f32a `it's`,// trailing space 
-}
-
-packet x_y_z {
-    uint32 _x,
-    MetaDataX {
-        trueish metadata,
-        char[42] falsey,
-    },
-    char[] packetx `it's`,
-    falsey,
-    repeat metadata `it's`,//x
-    @tag(42)
-    x @calculatedFrom(""x y""),
-    @lengthOf(float)
-    // packet A { u8 x, }
-    repeat Foo {
-        asx {
-            repeat char[] crc `a\`,
-            repeat A,
-        },
-        u Packet `say ""hi""`,
-        roots @calculatedFrom(""{,}""),
-        zchar[65535] f32a @lengthOf(o),
-    },
-}")).
-Eval vm_compute in ("<<<M382>>>" ++ check (runes_of_ascii "
-packet u {@calculatedFrom(""// no comment""  ) string
-//	t
-// a // b
-string_
-,@calculatedFrom( //	t
-""\" ++ [233]%N ++ runes_of_ascii """ ) match string_ as
-len  { """ ++ [233]%N ++ runes_of_ascii "t" ++ [233]%N ++ runes_of_ascii """ :
-    roots ,	[""a\""b""
-,
-""x y"" , """", // `tick` ""quote"" 'q'
-""" ++ [28040; 24687]%N ++ runes_of_ascii """ ,""packet"" , 7, 3  ]
-    //x
-    : /// triple
-As, [ """ ++ [128512]%N ++ runes_of_ascii """ ,
-    ""// no comment""	, 10 ,
-    //
-    10] : roots ,""" ++ [28040; 24687]%N ++ runes_of_ascii """ : packetx
-    , //
-[""1""] :	calculatedFrom ,[1
-]
-    :len , }, x_y_z
-    @calculatedFrom( ""a\""b"") `say ""hi""` , As
-    @lengthOf(
-    roots
-    ) ,
-    // a // b
-    @calculatedFrom( """ ++ [233]%N ++ runes_of_ascii "t" ++ [233]%N ++ runes_of_ascii """ ) char  i64_
-@lengthOf(Header ) , //
-u8 int
-    @lengthOf(	i64_ )
-    `crlf
-line` ,// `tick` ""quote"" 'q'
-@calculatedFrom( // " ++ [27880; 37322]%N ++ runes_of_ascii "
-""1"" ) zchar[3 ] Packet
-,
-// `tick` ""quote"" 'q'
-//x
-uint8
-    u128`line1
-line2`
-    ,
-    }	options
-    { Header = true
-    ;  Packet
-    // a // b
-    =
-    0123456789
-    matchKey=
-    /// triple
-    zchar[ 4294967296] }
-")).
-Eval vm_compute in ("<<<M4270>>>" ++ check (runes_of_ascii "packet
-	i8i8
-	{
-
-@tag(
-
-65535
-
-    )
-i8i8 ,
-
-    repeat
-u8
-    uint8x ,  zchar[
-    7
-
-] u
-	// " ++ [27880; 37322]%N ++ runes_of_ascii "
-
-  ,repeat
-    char[]Packet ,
-@leftPad
-( '\x00' 
-) i64_ {  x 
-`line1
-line2`
-	,//x
-    }
-
-,	// a // b
-    repeat
-    Foo {
-
-    len
-    {
-
-match 	 // a // b
-  u
-
-    as
-_x
-{42
-:tag
-, [
-    """ ++ [233]%N ++ runes_of_ascii "t" ++ [233]%N ++ runes_of_ascii """
-]
-	:_x
-    [
-
-7	,
-4294967296 ]
-	:  Packet	,
-    }
-    , 
-float64 o
-
-`it's` 
-,
-int64
-	options1,	//	t
-
-} ,
-}
-    ,
-@leftPad(
-'\x00'
-    )
-match
-    x  //
-	as
-
-    zchar{
-	255
-
-    :
-    //
-
-  o , 255
-
-    :
-    Logon/// triple
-,  0
-    : Header
-, 007
-    : msg_type
-, [ 
-    // packet A { u8 x, }
-	""\n""
-
-,	// packet A { u8 x, }
-  007  
-      // " ++ [27880; 37322]%N ++ runes_of_ascii "
-  // a // b
-	,""1""
-
-    ,255	// a // b
-, 4294967296,  0 
-,	007]: int
-
-    ,} 
-,
-
-    }// trailing space 
-
-	packet As
-	{
-
-    }
-")).
-Eval vm_compute in ("<<<M3794>>>" ++ check (runes_of_ascii "
-packet  int	{
-
-    @calculatedFrom(
-
-""" ++ [28040; 24687]%N ++ runes_of_ascii """ ) @tag(
-        // `tick` ""quote"" 'q'
-
-  007	)
-	options1	@calculatedFrom(""CRC32"")`tab	here` ,@lengthOf(As  ) x  x_y_z ,
-
-    repeat
-
-x
-{i64
-	Z9_	, zchar[ 
-    // c
-
-007
-
-] body 
-	//	t
-	// a // b
-	@lengthOf(uint8x )
-    // c
-
-  , f64  metadata
-
-@calculatedFrom( 
-""`tick`"") `tab	here` ,
-}	,
-} packet
-    msg_type
-	{
-
-repeat 
+u16 ;
+}  packet Pad{
+Z9_	@calculatedFrom(
+"""") `
+` 
+,	@tag( 42	)//
+@tag(	00)
+	@lengthOf(
+	zchar )
+
+match _x // packet A { u8 x, }
+  	as 
+metadata  {
+	007 :
+As ""`tick`"" // packet A { u8 x, }
+    :lengthOf , 255
+:lengthOf 
+""a	b"" 
     // trailing space 
-    // c
-  zchar[
-255 
-] A	, 
-int64 
-f32a, 	 // " ++ [128512]%N ++ runes_of_ascii " emoji
 
-	Pad 
-@lengthOf(
-falsey
-	), match
-
-    falsey
-as x_y_z
-    {  7
-    :	// `tick` ""quote"" 'q'
-  	len
-, }
-
-    /// triple
-// c
-    ,string // " ++ [27880; 37322]%N ++ runes_of_ascii "
-  uint8x  `a\` ,string
-
-rootA
-	//x
-	// a // b
-    @lengthOf( int  )
-	, }  root 
-/// triple
-	// `tick` ""quote"" 'q'
-
-packet 
-pack
-    { crc
-
-    i64_
-    ,
-	}
-")).
-Eval vm_compute in ("<<<M380>>>" ++ check (runes_of_ascii "root
-    packet
-    stringy{	u8x @lengthOf( A)
-    , match f32a as // trailing space 
-options1
 // " ++ [27880; 37322]%N ++ runes_of_ascii "
-//	t
-{[
-""a\""b"" ,	0123456789 ] : trueish[
-    ""a\\""
-, 3
-, 65535
-    , 255 ,
-    """ ++ [233]%N ++ runes_of_ascii "t" ++ [233]%N ++ runes_of_ascii """, 65535 , ""\" ++ [233]%N ++ runes_of_ascii """ ] // `tick` ""quote"" 'q'
-:  body,},
-@calculatedFrom( """ ++ [128512]%N ++ runes_of_ascii """ ) repeat uint16 int //
-,repeat
-/// triple
-/// triple
-tag	, @leftPad () match int as u8x //
-{[ 65535 ,	""" ++ [233]%N ++ runes_of_ascii "t" ++ [233]%N ++ runes_of_ascii """
-    ] :
-    metadata
+:	Packet 255
+	: a1	,	// c
+  [
+
+00  ,
+0  ,
+
+    10
+
+    ,""a\\""
 ,
-    }//x
-, @rightPad  () repeat zchar[ 7
-//	t
-// packet A { u8 x, }
-] Logon
-//
-//	t
-`crlf
-line`
-, As
-// " ++ [128512]%N ++ runes_of_ascii " emoji
-// packet A { u8 x, }
-{
-int64 roots , } , // packet A { u8 x, }
-@tag(255
-) int64 charz @calculatedFrom(
-""a	b"" ) , BodyLength lengthOf  ,float64
-As,  }packet	Foo { char[ 4294967296 ]float `u8 x,`
-    , } packet _x { }
-")).
-Eval vm_compute in ("<<<M1329>>>" ++ check (runes_of_ascii "packet
-leftPad
-{ @tag(
-1
-) i8 // a // b
-crc , float64 packetx `" ++ [233]%N ++ runes_of_ascii "` , lengthOf
-@lengthOf( charz
-    // trailing space 
-    ) , repeat
-    Packet ,	@lengthOf( u )  @lengthOf(// " ++ [27880; 37322]%N ++ runes_of_ascii "
-T )
-    repeat u16 uint8x `" ++ [28040; 24687; 31867; 22411]%N ++ runes_of_ascii "`,
-    zchar[  10
-]// a // b
-metadata ``
-    , match // packet A { u8 x, }
-trueish
-    as options1{0123456789
-: rootA
-    ,255: MetaDataX[""a\\"" ,/// triple
-""\n"",00
-, 10 ] : trueish ,	""CRC32"" :
-uint8x, 0 : Z9_ ,  ""1""// c
-: i8i8
-// `tick` ""quote"" 'q'
-// packet A { u8 x, }
-,} , @calculatedFrom( ""it's"" ) uint8 chars `
-` , } options
-    // @lengthOf(
-    {
-    f32a
-= i16 ; // " ++ [128512]%N ++ runes_of_ascii " emoji
-u
-    = ""abc"" }MetaData chars{	i16 lengthOf , Packet msg_type
-    `crlf
-line` ,} // " ++ [27880; 37322]%N)).
-Eval vm_compute in ("<<<M1378>>>" ++ check (runes_of_ascii "options{
-    A = ""\n"" ; matchKey = 4294967296 } root packet repeatCount
-{ rootA `{ , }`
-    , @tag(0 )	@tag(  007 )
-    string
-    packetx
-    ,  repeat // c
-u128
-u128	`u8 x,`	, @leftPad
-    ( ' '	)
-    i64_ @calculatedFrom(""`tick`""	)
-    // @lengthOf(
-    `it's`
-, char[ 00 ] lengthOf `it's` , Foo`u8 x,`, zchar[
-65535] i64_ , char[
-    // c
-    0	]_x
-    ,
-    repeat zchar[0123456789]	u
-,  @tag(
-    10 // trailing space 
-)
-/// triple
-// packet A { u8 x, }
-int64 pack
-@calculatedFrom( ""packet""
-    )
-`u8 x,`
-// a // b
-// trailing space 
-, } packet
-    float
-// a // b
-//x
-{@tag(
-0
-    // " ++ [27880; 37322]%N ++ runes_of_ascii "
-    )
-char[0
-]
-stringy `" ++ [28040; 24687; 31867; 22411]%N ++ runes_of_ascii "`	, } /// triple")).
-Eval vm_compute in ("<<<M4367>>>" ++ check (runes_of_ascii "packet Packet {
-}
 
-root packet pack {
-    @calculatedFrom(""CRC32"")
-    string pack `two words`,
-    @lengthOf(Pad)
-    @lengthOf(rootA)
-    i16 A `doc`,
-}
-
-options {
-    asx = 00;
-    string_ = 7;
-    x_y_z = 0123456789;
-}
-
-packet uint8x {
-    int32 trueish @lengthOf(roots) `say ""hi""`,
-    @tag(1)
-    @lengthOf(a1)
-    match f32a as MetaDataX {
-        /// triple
-        // trailing space 
-        7 : pack,
-        65535 : calculatedFrom,
-        [3, 1, 0123456789, ""// no comment""] : Z9_,
-        4294967296 : a1,
-        007 : int,
-        """ ++ [128512]%N ++ runes_of_ascii """ : o,
-    },
-    repeat calculatedFrom a1 `crlf
-    line`,
-}")).
-Eval vm_compute in ("<<<M4157>>>" ++ check (runes_of_ascii "packet  pack { A	// a // b
-      {
-char[ 0
-
-    ]
-
-    msg_type`
-`
-, }
-
-    ,
-@lengthOf( msg_type
-)	MetaDataX {
-int64 u @calculatedFrom( ""a\""b""
-) `
-`,
-float32 // a // b
-  i8i8
-@calculatedFrom(""a\\""
-    )
-	`it's` , match 
-uint8x
-    as  matchKey 
-    // a // b
-
-{
-    ""{,}"":i64_,	42 :
-T  ,3
-	:
-x  // c
-
-}
-    ,  }
-	,
-
-    @tag(
-	10  ) @leftPad('\x00')
-    zchar { f32a
-Foo
-, }  ,match
-
-    x_y_z
-as
-falsey { ""// no comment"" :  i64_
-,	} , // `tick` ""quote"" 'q'
-  }
-
-options
-{ uint8x  
-      // " ++ [128512]%N ++ runes_of_ascii " emoji
-	='0'	; _x
-    = false // `tick` ""quote"" 'q'
-
-	f32a  =
-	zchar[
-00];
-}
-")).
-Eval vm_compute in ("<<<M4127>>>" ++ check (runes_of_ascii "packet Packet {
-    @tag(65535)
-    @leftPad(' ')
-    @tag(255)
-    uint8 len @lengthOf(T),
-    int32 u8x,
-    @lengthOf(rootA)
-    float32 i64_ `u8 x,`,
-}
-
-packet int {
-    repeat i8i8 {
-        lengthOf @lengthOf(int) `line1
-        line2`,
-        string falsey `
-        `,
-        uint16 roots @lengthOf(charz),
-    },
-}
-
-options {
-    Foo = ' '
-    len = """ ++ [128512]%N ++ runes_of_ascii """;
-    chars = u64;
-    //x
-    //
-    uint8x = """ ++ [128512]%N ++ runes_of_ascii """;
-    metadata = ' ';
-}
-
-MetaData Header {
-    i16 matchKey,
-    Packet Packet `u8 x,`,
-}
-
-packet u128 {
-    uint8x @lengthOf(charz) `u8 x,`,
-}")).
-Eval vm_compute in ("<<<M4529>>>" ++ check (runes_of_ascii "options
-
-    { }
-packet
-
-Packet{
-repeat
-	zchar[ 0123456789
-]  crc 
-,
-	repeat
-	zchar[ 4294967296 ]Z9_  ,// packet A { u8 x, }
-rootA
-	,
-
-    repeat  Packet { lengthOf
-    {  u8x`{ , }`  ,zchar[ 0123456789 ]
-
-    lengthOf  `{ , }`
-,	// " ++ [27880; 37322]%N ++ runes_of_ascii "
-
-	Header	{ repeat 
-// c
-    	//x
-	  f32 
-As	`line1
-line2` , 
-charz@calculatedFrom(  ""1"" )
-
-    , }
-
-, },} ,
-
-i8 	 //	t
-  	float@lengthOf(	T// packet A { u8 x, }
-	)
-,  @lengthOf(  metadata )
-	@calculatedFrom( ""packet"" 
-	    // a // b
-
-	) @lengthOf(
-	repeatCount	) repeat f32 
-Foo	,
-}")).
-Eval vm_compute in ("<<<M4042>>>" ++ check (runes_of_ascii "
-
-  root	packet	crc
-
-{ 
-@leftPad(
-
-    '0' 
-) @lengthOf( 
-float
-) roots
-Logon  `u8 x,`,char[
-    3 ]repeatCount	`a\` 
-// `tick` ""quote"" 'q'
-		// @lengthOf(
+""it's"" ,
+	10, 7
+	]:Foo ,
+	}
 	,  match
 
-uint8x as	//x
+Header 
+as
+    o
 
-  msg_type
-    {
-    10 : body ,
-    0123456789
-:
-	o
-}
+    {[ 	 // packet A { u8 x, }
+255  ]	:
 
-    ,	repeat
-x
+zchar
+	,
+0123456789  :
+leftPad 
+[007
 
-    // c
-	// c
+,  3	]
+:	leftPad , 	 // c
+	0
 
-	{	uint8
-
-roots
-
-@calculatedFrom(  ""abc""
-    )
-
-`" ++ [28040; 24687; 31867; 22411]%N ++ runes_of_ascii "`
-
-    , }
-    , }
-
-    packet 	 //	t
-
-	calculatedFrom
-	{ uint8
-MetaDataX
-	`// not a comment`  ,
-}  packet
-    crc
-	{Z9_
-{ repeat  crc
-
-`doc`	, 
-Z9_ `` ,} , 
-}
-// a // b
-")).
-Eval vm_compute in ("<<<M754>>>" ++ check (runes_of_ascii "packet falsey	{ }packet
-i64_ {i64
-metadata @lengthOf(
-    len ) , repeat i16// a // b
-float , } packet Pad
-{ @lengthOf( Logon
-)Packet { string matchKey , zchar[65535] metadata , string
-metadata `" ++ [28040; 24687; 31867; 22411]%N ++ runes_of_ascii "` ,repeat char[ 0123456789 ]
-    rootA ,
-    }, @tag(
-4294967296 ) repeat
-    a1
-    // `tick` ""quote"" 'q'
-    float`// not a comment`	,repeat char[//	t
-3
-]	As`{ , }`
-    ,
-@calculatedFrom(
-    ""packet"" ) match T	as packetx{ ""a\\"" : Packet
-,
-    // a // b
-    } /// triple
-,
-    }")).
-Eval vm_compute in ("<<<M4029>>>" ++ check (runes_of_ascii "
-
-  packet  // a // b
-
-  stringy {Logon
-
-    {
-	match 
-string_ as	i64_{  ""x y""
-:  string_
-	, 
-        // " ++ [27880; 37322]%N ++ runes_of_ascii "
-
-// `tick` ""quote"" 'q'
-	  ""`tick`"" 
-:
-    string_  ,
-    1 // " ++ [27880; 37322]%N ++ runes_of_ascii "
-    	: 
-        /// triple
-    	// c
-
-  float ,	[
-
-    ""1""
-	]
-: options1  
-      // " ++ [27880; 37322]%N ++ runes_of_ascii "
-, }
-,zchar[ 1	]  crc @calculatedFrom(
-
-""""
-
-)
-    `two words`
-
-    , f32a ,
-
-    float32 lengthOf,
-    },  @tag(
-255
-
-    )  u8x @calculatedFrom(// packet A { u8 x, }
-	  ""abc"" ) `a\` , 
-}")).
-Eval vm_compute in ("<<<M1000>>>" ++ check (runes_of_ascii "MetaData roots{ }MetaData x_y_z// trailing space 
-{
-zchar[	42 ]
-    i8i8
-, options1 _x`doc` ,i8 zchar
-    , uint16 Pad`u8 x,`,	} packet MetaDataX{
-    zchar[
-4294967296 ] rootA  ,
-//
-//x
-}	packet
-    T { //x
-@lengthOf( len	) @tag( 42) int64 float `{ , }` // c
-, @lengthOf(i64_)As @lengthOf(falsey
-    // a // b
-    ) ,
-int64 Pad	@lengthOf( _x)
-`it's` , @lengthOf( len
-    ) char[
-255
-]Pad`" ++ [28040; 24687; 31867; 22411]%N ++ runes_of_ascii "`, }
-    MetaData Foo
-{// " ++ [27880; 37322]%N ++ runes_of_ascii "
-char[	1 ] As ,}
-")).
-Eval vm_compute in ("<<<M395>>>" ++ check (runes_of_ascii "packet trueish
-    // " ++ [128512]%N ++ runes_of_ascii " emoji
-    { BodyLength
-, // packet A { u8 x, }
-repeat
-    //
-    len , @tag(
-3 ) zchar[ 0 ] u128 // packet A { u8 x, }
-,@calculatedFrom( ""a\""b""
-    )char[] u128 `u8 x,` , }
-MetaData BodyLength {char[
-1]
-A	,
-/// triple
-// `tick` ""quote"" 'q'
-rootA	int ,
-// trailing space 
-// packet A { u8 x, }
-string
-    //x
-    len ,
-char[] o// @lengthOf(
-, // `tick` ""quote"" 'q'
-uint8x u128 `` , } // @lengthOf(")).
-Eval vm_compute in ("<<<M1306>>>" ++ check (runes_of_ascii "packet string_ { zchar[ 3 ] // c
-stringy @lengthOf( packetx  )`u8 x,` //
-, // `tick` ""quote"" 'q'
-f64 string_ ``, } MetaData leftPad{ char[
-    1 ] MetaDataX `crlf
-line` ,
-    metadata a1
-`tab	here` ,	T o `line1
-line2` , // " ++ [128512]%N ++ runes_of_ascii " emoji
-o
-trueish ,}options
-{ }
-MetaData
-    // @lengthOf(
-    T
-{Foo Logon
-    , Logon lengthOf , char[
-    00 ]
-    pack , char[7 ]
-// @lengthOf(
-// trailing space 
-i8i8 `` ,}
-")).
-Eval vm_compute in ("<<<M661>>>" ++ check (runes_of_ascii "MetaData u8x
-{ char[]a1 , int16 zchar `tab	here` , u16 charz `
-`, stringy Pad
-, i32 // @lengthOf(
-Header ,zchar[ 7// c
-]//	t
-crc , }options// packet A { u8 x, }
-{
-    } packet charz{ repeat int16 packetx
-, matchKey o ,
-@calculatedFrom( ""it's"" ) MetaDataX @lengthOf( tag)
-`a\`
-// trailing space 
-// " ++ [27880; 37322]%N ++ runes_of_ascii "
-, zchar[
-    255	] _x , i8	i64_ @lengthOf( Header
-    )
-    , } // trailing space ")).
-Eval vm_compute in ("<<<M1308>>>" ++ check (runes_of_ascii "// `tick` ""quote"" 'q'
-packet i8i8	{ // a // b
-@rightPad( )  body @calculatedFrom(// a // b
-""\" ++ [233]%N ++ runes_of_ascii """ ) , i64 Header @lengthOf(
-trueish
-) , @tag( 65535 )  @lengthOf( tag//
-) @tag( 255
-)
-    repeat
-    float32 repeatCount
-, char[
-1 ] rootA`u8 x,` , @lengthOf(
-    _x ) @lengthOf(
-    Header  ) @calculatedFrom( """"
-)
-//x
-// trailing space 
-i8i8 pack// trailing space 
-, }
-
-")).
-Eval vm_compute in ("<<<M858>>>" ++ check (runes_of_ascii "MetaData _x{
-    body
-float
-, float64
-    x_y_z `tab	here` ,  char[00
-]
-o`a\`
-, Z9_	crc
-    `doc`
-,} packet options1 { @lengthOf( T )@lengthOf( chars  ) @rightPad
-(
-    ' '  ) string_ falsey ,
-    // packet A { u8 x, }
-    } MetaData Pad
-{ //x
-Foo Z9_
-    `crlf
-line` , x_y_z packetx	,
-    uint32 calculatedFrom , i64 falsey ,packetx As ``,  }")).
-Eval vm_compute in ("<<<M4376>>>" ++ check (runes_of_ascii "MetaData u8x {
-    char[] a1,
-    int16 zchar `tab	here`,
-    u16 charz `
-    `,
-    stringy Pad,
-    i32 Header,
-    zchar[7] crc,
-}
-
-options {
-}
-
-packet charz {
-    repeat int16 packetx,
-    matchKey o,
-    @calculatedFrom(""it's"")
-    MetaDataX @lengthOf(tag) `a\`,
-    zchar[255] _x,
-    i8 i64_ @lengthOf(Header),
-}// trailing space")).
-Eval vm_compute in ("<<<M1996>>>" ++ check (runes_of_ascii "MetaData
-    u { }  options {
-// c
-// @lengthOf(
-float = int8 ;rootA =false ; As =	int16 // `tick` ""quote"" 'q'
-repeatCount
-    // trailing space 
-    =
-    int16
-; u8x =
-    //	t
-    '\x00' ; } options	{
-    repeatCount repeatCount
-= 0
-u128
-    //
-    = false ; i64_
-// trailing space 
-// `tick` ""quote"" 'q'
-= '0' ; //	t
-}
-")).
-Eval vm_compute in ("<<<M1923>>>" ++ check (runes_of_ascii "MetaData
-    u { }  options {
-// c
-// @lengthOf(
-float = int8 ;rootA =false repeat As =	int16 // `tick` ""quote"" 'q'
-repeatCount
-    // trailing space 
-    =
-    int16
-; u8x =
-    //	t
-    '\x00' ; } options	{
-    repeatCount
-= 0
-u128
-    //
-    = false ; i64_
-// trailing space 
-// `tick` ""quote"" 'q'
-= '0' ; //	t
-}
-")).
-Eval vm_compute in ("<<<M1911>>>" ++ check (runes_of_ascii "MetaData
-    u { }  options {
-// c
-// @lengthOf(
-float = int8 ;rootA = =false ; As =	int16 // `tick` ""quote"" 'q'
-repeatCount
-    // trailing space 
-    =
-    int16
-; u8x =
-    //	t
-    '\x00' ; } options	{
-    repeatCount
-= 0
-u128
-    //
-    = false ; i64_
-// trailing space 
-// `tick` ""quote"" 'q'
-= '0' ; //	t
-}
-")).
-Eval vm_compute in ("<<<M2059>>>" ++ check (runes_of_ascii "MetaData
-    u { }  options {
-// c
-// @lengthOf(
-float = int8 ;rootA =false ; As =	int16 // `tick` ""quote"" 'q'
-repeatCount
-    // trailing space 
-    =
-    int16
-; u8x =
-    //	t
-    '\x00' ; } options	{
-    repeatCount
-""= 0
-u128
-    //
-    = false ; i64_
-// trailing space 
-// `tick` ""quote"" 'q'
-= '0' ; //	t
-}
-")).
-Eval vm_compute in ("<<<M1962>>>" ++ check (runes_of_ascii "MetaData
-    u { }  options {
-// c
-// @lengthOf(
-float = int8 ;rootA =false ; As =	int16 // `tick` ""quote"" 'q'
-repeatCount
-    // trailing space 
-    =
-    int16
-; = u8x
-    //	t
-    '\x00' ; } options	{
-    repeatCount
-= 0
-u128
-    //
-    = false ; i64_
-// trailing space 
-// `tick` ""quote"" 'q'
-= '0' ; //	t
-}
-")).
-Eval vm_compute in ("<<<M1920>>>" ++ check (runes_of_ascii "MetaData
-    u { }  options {
-// c
-// @lengthOf(
-float = int8 ;rootA =false  As =	int16 // `tick` ""quote"" 'q'
-repeatCount
-    // trailing space 
-    =
-    int16
-; u8x =
-    //	t
-    '\x00' ; } options	{
-    repeatCount
-= 0
-u128
-    //
-    = false ; i64_
-// trailing space 
-// `tick` ""quote"" 'q'
-= '0' ; //	t
-}
-")).
-Eval vm_compute in ("<<<M2030>>>" ++ check (runes_of_ascii "MetaData
-    u { }  options {
-// c
-// @lengthOf(
-float = int8 ;rootA =false ; As =	int16 // `tick` ""quote"" 'q'
-repeatCount
-    // trailing space 
-    =
-    int16
-; u8x =
-    //	t
-    '\x00' ; } options	{
-    repeatCount
-= 0
-u128
-    //
-    = false ; 
-// trailing space 
-// `tick` ""quote"" 'q'
-= '0' ; //	t
-}
-")).
-Eval vm_compute in ("<<<M1940>>>" ++ check (runes_of_ascii "MetaData
-    u { }  options {
-// c
-// @lengthOf(
-float = int8 ;rootA =false ; As =	int16 // `tick` ""quote"" 'q'
-
-    // trailing space 
-    =
-    int16
-; u8x =
-    //	t
-    '\x00' ; } options	{
-    repeatCount
-= 0
-u128
-    //
-    = false ; i64_
-// trailing space 
-// `tick` ""quote"" 'q'
-= '0' ; //	t
-}
-")).
-Eval vm_compute in ("<<<M188>>>" ++ check (runes_of_ascii "packet options1 {// " ++ [128512]%N ++ runes_of_ascii " emoji
-@calculatedFrom( ""abc""
-) //
-repeat BodyLength , a1
-@lengthOf(
-    // trailing space 
-    i8i8
-    // " ++ [128512]%N ++ runes_of_ascii " emoji
-    ) ,
-    } packet	asx
-    {char[ 0] o`crlf
-line`
-,char[] options1 `crlf
-line`
-,
-@tag( 42 )
-    repeat Foo  ,
-asx @calculatedFrom(
-    ""`tick`"") ,}")).
-Eval vm_compute in ("<<<M238>>>" ++ check (runes_of_ascii "MetaData
-    a1 { // a // b
-}options { o
-= 255
-; } packet f32a //
-{ uint8 _x	@calculatedFrom( ""x y""
-)	,}MetaData
-    options1
-{  f64 lengthOf `it's`
-,lengthOf metadata,	int8 crc
-`
-` /// triple
-,
-    char[0123456789//	t
-]o ,
-// " ++ [128512]%N ++ runes_of_ascii " emoji
-// packet A { u8 x, }
-char[] //	t
-a1,}
-")).
-Eval vm_compute in ("<<<M3682>>>" ++ check (runes_of_ascii "packet options1 {
-    @leftPad('0')
-    // " ++ [128512]%N ++ runes_of_ascii " emoji
-    match uint8x as T {
-        42 : stringy,
-        [""1""] : i64_,
-        //
-        3 : string_,
-        ""a\\"" : metadata,
-        ""CRC32"" : int,
-        //x
-        ""packet"" : rootA,
-    },
-}
-
-root packet i8i8 {
-}")).
-Eval vm_compute in ("<<<M3672>>>" ++ check (runes_of_ascii "
-packet  //
-    x
-{ }  packet 
-lengthOf  {
-	repeat a1
-{ lengthOf
-
-@lengthOf(	x_y_z ), 	 // `tick` ""quote"" 'q'
-
-  zchar[
-
-0123456789] Packet ,
-
-leftPad
-
-u
-
-    , zchar[
-1 ]Foo 
-
-// @lengthOf(
-  @calculatedFrom(
-""`tick`"" 	 // " ++ [27880; 37322]%N ++ runes_of_ascii "
-      )
+:	packetx
 
     ,
 	}
-,
-}
-")).
-Eval vm_compute in ("<<<M577>>>" ++ check (runes_of_ascii "packet int {
-int64 msg_type @calculatedFrom(// trailing space 
-""\" ++ [233]%N ++ runes_of_ascii """ ),
-} options {
-packetx = false tag = // trailing space 
-true
-    u128= i32 ; msg_type= true
-pack = u32 ;
-    } options {
-    Packet
-= char[] ; } root packet roots{ zchar[ 42]
-float ,}
-")).
-Eval vm_compute in ("<<<M1530>>>" ++ check (runes_of_ascii "packet
-//	t
-// trailing space 
-_x {
-// packet A { u8 x, }
-// c
-char[
-3
-    ] u8x @lengthOf(
-true ) , @calculatedFrom(""" ++ [128512]%N ++ runes_of_ascii """ // @lengthOf(
-)
-i16	Foo
-@lengthOf(	string_
-    )`doc`	, repeat	i64 metadata , @lengthOf( string_
-) i8 // c
-u  `line1
-line2`	,
-}
-")).
-Eval vm_compute in ("<<<M1559>>>" ++ check (runes_of_ascii "packet
-//	t
-// trailing space 
-_x {
-// packet A { u8 x, }
-// c
-char[
-3
-    ] u8x @lengthOf(
-u8x ) , @calculatedFrom(""" ++ [128512]%N ++ runes_of_ascii """ // @lengthOf(
-)
-Foo	i16
-@lengthOf(	string_
-    )`doc`	, repeat	i64 metadata , @lengthOf( string_
-) i8 // c
-u  `line1
-line2`	,
-}
-")).
-Eval vm_compute in ("<<<M1552>>>" ++ check (runes_of_ascii "packet
-//	t
-// trailing space 
-_x {
-// packet A { u8 x, }
-// c
-char[
-3
-    ] u8x @lengthOf(
-u8x ) , @calculatedFrom(""" ++ [128512]%N ++ runes_of_ascii """ // @lengthOf(
+	, }	MetaData
+    Pad{	// packet A { u8 x, }
+}packet T
+    // packet A { u8 x, }
+	  { 
+// " ++ [27880; 37322]%N ++ runes_of_ascii "
+		charz
 
-i16	Foo
-@lengthOf(	string_
-    )`doc`	, repeat	i64 metadata , @lengthOf( string_
-) i8 // c
-u  `line1
-line2`	,
-}
-")).
-Eval vm_compute in ("<<<M1605>>>" ++ check (runes_of_ascii "packet
-//	t
-// trailing space 
-_x {
-// packet A { u8 x, }
-// c
-char[
-3
-    ] u8x @lengthOf(
-u8x ) , @calculatedFrom(""" ++ [128512]%N ++ runes_of_ascii """ // @lengthOf(
-)
-i16	Foo
-@lengthOf(	string_
-    )`doc`	, repeat	i64 ' ' , @lengthOf( string_
-) i8 // c
-u  `line1
-line2`	,
-}
-")).
-Eval vm_compute in ("<<<M1327>>>" ++ check (runes_of_ascii "
-packet
-    //x
-    leftPad {
-    }options
-{ Foo
-= ""1""zchar
-    = 65535 uint8x  = zchar[ 10
-    ] ;
-} MetaData
-    u128 { f32a x
-, i16 u8x
-    `two words` , BodyLength metadata `// not a comment` // a // b
+@lengthOf(  asx)``,
+} packet
+
+    matchKey 
+{
+    @tag( 3 ) @calculatedFrom( ""a	b"" 
+
+    /// triple
+	// c
+)@calculatedFrom(
+""""  ) pack
+rootA
+    , 
+repeat//	t
+  leftPad ``
+	,  repeat
+	uint32 Foo
+`u8 x,`
 ,
-    } options {As= '\x00'
-;}")).
-Eval vm_compute in ("<<<M2019>>>" ++ check (runes_of_ascii "MetaData
+@calculatedFrom( """ ++ [233]%N ++ runes_of_ascii "t" ++ [233]%N ++ runes_of_ascii """) repeat 
+char[
+65535 ]	u
+, @lengthOf( 
+_x
+) @lengthOf( 
+u8x) 
+repeat
+
+    zchar[ 0123456789
+
+    ]  x	, 
+match 
+i64_  // " ++ [27880; 37322]%N ++ runes_of_ascii "
+    as
+    falsey
+    {// trailing space 
+	255:
+
+f32a ,
+    ""{,}""
+
+    :
+x
+, ""\" ++ [233]%N ++ runes_of_ascii """ : matchKey  ,
+[ 
+""""
+
+, 
+  // trailing space 
+  	""{,}"" ,10 
+,
+
+    """ ++ [128512]%N ++ runes_of_ascii """ 
+  // a // b
+    // packet A { u8 x, }
+	,
+""a	b"",
+
+    0
+,
+    ""1"" , 65535 ]
+:
+len
+,	""\" ++ [233]%N ++ runes_of_ascii """
+    : T ,
+	[
+""CRC32""
+    ,
+        // " ++ [128512]%N ++ runes_of_ascii " emoji
+  1
+, ""// no comment"",007,
+1
+	,	""`tick`""  ,""" ++ [128512]%N ++ runes_of_ascii """]// packet A { u8 x, }
+	  : a1 } ,match
+	x 
+as
+    As{ 
+""a	b""
+	: 
+o
+,
+    007
+
+    :MetaDataX
+    ,
+    [  ""a	b""
+
+] :
+    falsey , 
+""// no comment""  : Z9_
+""packet""
+	:
+_x 
+// " ++ [128512]%N ++ runes_of_ascii " emoji
+    , } ,  repeat rootA
+    {  uint8 MetaDataX@calculatedFrom(
+""abc""
+)	,
+match // `tick` ""quote"" 'q'
+
+int  as // a // b
+asx
+
+{[10  , 
+10 ,
+
+""`tick`""
+, 
+00,
+4294967296]:
+
+    o,
+""CRC32""
+    :
+string_ ,
+[0 ]
+: roots  65535
+:  
+  // " ++ [27880; 37322]%N ++ runes_of_ascii "
+  // trailing space 
+		_x 	 //
+	,
+
+""it's"" : 
+Pad
+	,
+4294967296 :
+
+Pad 
+, }
+,u16 
+chars
+
+`line1
+line2` 
+,  //x
+	}
+, } ")).
+Eval vm_compute in ("<<<M913>>>" ++ check (runes_of_ascii "MetaData trueish { f32
+a1 `it's` , A // " ++ [128512]%N ++ runes_of_ascii " emoji
+lengthOf`tab	here` , } MetaData	BodyLength
+{
+    // @lengthOf(
+    char[
+0123456789 ]stringy
+//	t
+// c
+,
+} packet string_ { @rightPad	('0' ) asx
+    , @calculatedFrom(""abc""
+    )repeat char[ 4294967296 // `tick` ""quote"" 'q'
+] packetx ,
+// a // b
+// " ++ [27880; 37322]%N ++ runes_of_ascii "
+repeat
+o
+    // " ++ [27880; 37322]%N ++ runes_of_ascii "
+    { // `tick` ""quote"" 'q'
+int64
+u8x,repeat u32 leftPad
+`a\`
+, // packet A { u8 x, }
+char[] charz `doc`
+,zchar[
+65535
+] lengthOf@calculatedFrom(  ""a\\""
+    )
+, }  ,
+    // " ++ [27880; 37322]%N ++ runes_of_ascii "
+    leftPad
+@calculatedFrom(	""// no comment"")`// not a comment` ,
+    int32 int
+,pack {zchar,
+} // c
+,repeat zchar[65535 ]
+    // c
+    x ,
+@rightPad  (  '0' )
+//x
+// c
+float32 Z9_
+, @calculatedFrom(
+// a // b
+// " ++ [27880; 37322]%N ++ runes_of_ascii "
+""`tick`""
+    )
+    match
+uint8x
+    as
+Header // `tick` ""quote"" 'q'
+{[42
+    // " ++ [128512]%N ++ runes_of_ascii " emoji
+    ]
+    :f32a, 4294967296
+    :
+    matchKey , """ ++ [28040; 24687]%N ++ runes_of_ascii """
+    /// triple
+    : tag 1 :// a // b
+body
+, }
+    ,
+@tag(// a // b
+007
+    )@calculatedFrom( ""a\\"" ) @lengthOf(
+metadata ) repeat chars ,}
+packet roots { char[007
+    ]
+Foo@lengthOf(zchar ) `line1
+line2` , @tag( 255 ) match crc as lengthOf {[ ""// no comment"" ]
+:
+    Header ,
+    //x
+    1 :// " ++ [128512]%N ++ runes_of_ascii " emoji
+crc ,""\n"" :  options1 , [ 1, """ ++ [28040; 24687]%N ++ runes_of_ascii """
+    ,
+    00,	1, //	t
+42 ,65535  ] : Z9_,}
+//x
+// a // b
+,zchar[ 4294967296
+] As `say ""hi""`
+    ,	@lengthOf( stringy ) chars
+{float32 u8x,} ,
+    char[ 255 ] Pad
+    @lengthOf(u8x ) ,
+int64 metadata,
+    // c
+    uint8 x_y_z	@lengthOf(
+    //
+    Header )`two words`,	repeat zchar[ 42 ] calculatedFrom `it's`	, @rightPad
+(
+'\x00' )
+    repeat
+    crc
+    // @lengthOf(
+    {
+    // trailing space 
+    repeat As {
+i64_`line1
+line2` , } ,}
+, }
+")).
+Eval vm_compute in ("<<<M499>>>" ++ check (runes_of_ascii "  packet trueish { match
+    options1 as
+    Packet{[
+    ""a\\"" , 3	, ""\" ++ [233]%N ++ runes_of_ascii """ //
+,0123456789 ]  : Packet
+    ,""// no comment""
+    : BodyLength,
+[
+    10 ]: //	t
+stringy , """ ++ [28040; 24687]%N ++ runes_of_ascii """ :  metadata [  ""`tick`""
+    ,
+7 , ""// no comment"" ] :int ,65535 :
+//x
+// packet A { u8 x, }
+packetx ,
+    } ,}
+    packet
+    f32a
+{  @calculatedFrom( //	t
+""{,}"" )
+char[] len `doc`
+    , @leftPad
+    ( '\x00'
+    ) repeat char[] Z9_ `tab	here` ,
+match MetaDataX
+// c
+// packet A { u8 x, }
+as crc {
+    ""a	b""
+    :	Pad , 10
+:
+matchKey  [
+1 ,""{,}"" ,3 ] :
+    uint8x , ""x y"" :
+    Header , 7 // trailing space 
+: repeatCount ,[ ""a\\"" , ""a\""b""
+    // " ++ [128512]%N ++ runes_of_ascii " emoji
+    , 10] : a1 ,
+} ,
+@calculatedFrom(""a\\"" )
+    //x
+    @leftPad
+// a // b
+// trailing space 
+( ) @leftPad
+    ( '\x00'	)calculatedFrom
+`tab	here` , @rightPad (// c
+'\x00' )
+    float32
+body ,  } packet
+    Pad {Packet
+    @calculatedFrom(
+    ""a	b""
+// trailing space 
+// a // b
+), @tag(
+4294967296
+    ) @rightPad// " ++ [128512]%N ++ runes_of_ascii " emoji
+( ) @calculatedFrom(
+    // a // b
+    ""1""	) repeat tag
+    matchKey `" ++ [28040; 24687; 31867; 22411]%N ++ runes_of_ascii "` ,  @tag(
+    4294967296)
+@lengthOf(string_
+    ) falsey
+//
+// " ++ [27880; 37322]%N ++ runes_of_ascii "
+i64_
+    , @tag( 0123456789 ) As
+u `two words` , @leftPad ( '0' ) options1{ uint8 zchar // c
+, }
+    , @leftPad	( ) repeat uint32
+    // a // b
+    asx ,	metadata { // c
+char[ 0 ] len @lengthOf(T ) , }	, zchar[ 3 ]uint8x @lengthOf( trueish // `tick` ""quote"" 'q'
+) `" ++ [233]%N ++ runes_of_ascii "` , @calculatedFrom(  ""CRC32""
+)
+    roots@lengthOf( x
+    ), }")).
+Eval vm_compute in ("<<<M1103>>>" ++ check (runes_of_ascii "packet body {
+@tag(00) options1 @calculatedFrom(""1""
+)
+    ,@calculatedFrom(
+// " ++ [27880; 37322]%N ++ runes_of_ascii "
+// packet A { u8 x, }
+""abc"" )
+uint8x
+    {o
+    //	t
+    , // c
+u16 float
+`a\` ,} , @tag( 1 ) u `u8 x,` ,crc { zchar{ match/// triple
+i8i8 as // trailing space 
+int {	""`tick`"": x_y_z,
+}, repeat uint8 f32a,
+    }
+,// c
+i8 As@lengthOf( Foo  ) `it's`
+,charz@calculatedFrom(
+""it's"") , char[ 4294967296 ] Packet `it's` , } ,
+    @lengthOf( Z9_
+)  crc  { repeat options1 {
+match // `tick` ""quote"" 'q'
+MetaDataX
+as
+    pack
+    { [
+//	t
+//
+""a\\"" ]
+: i8i8 ,""a\\""  :falsey [""packet""
+] : Logon,	[ 4294967296 ,
+    ""abc"" ,""{,}"",//x
+3 , """ ++ [128512]%N ++ runes_of_ascii """ , 7 ,00
+,
+    7
+    ] : matchKey ,
+0 : trueish ,
+} ,x_y_z repeatCount , repeat uint16 repeatCount //
+, },
+options1
+, // " ++ [128512]%N ++ runes_of_ascii " emoji
+falsey{ char[]
+    u `u8 x,` ,  } , }
+,
+} root packet Pad { match o // trailing space 
+as a1{ [
+"""" ,
+""packet""
+    // c
+    , 1 ,
+    //	t
+    0123456789 // trailing space 
+]
+    : charz
+,// trailing space 
+""a\""b""
+:
+x_y_z ,
+[
+    ""CRC32""
+, 007, 255
+] :
+float , 4294967296 : int ,
+""{,}"" :stringy ,
+    4294967296: A,
+} ,	@rightPad
+    () @tag(
+    7 //
+) match // packet A { u8 x, }
+uint8x
+as
+crc{  255
+: pack , }
+    ,repeat int8
+i8i8 ,} packet a1
+{ string As  @calculatedFrom(
+    ""a	b""
+    ),} MetaData u {  }
+    //x
+    root packet f32a {	}")).
+Eval vm_compute in ("<<<M4065>>>" ++ check (runes_of_ascii "packet pack {
+}
+
+options {
+    As = ""\" ++ [233]%N ++ runes_of_ascii """;
+}
+
+root packet lengthOf {
+    @tag(65535)
+    @calculatedFrom(""" ++ [233]%N ++ runes_of_ascii "t" ++ [233]%N ++ runes_of_ascii """)
+    @calculatedFrom(""abc"")
+    repeat string msg_type,
+    @calculatedFrom(""" ++ [233]%N ++ runes_of_ascii "t" ++ [233]%N ++ runes_of_ascii """)
+    char[255] Logon,
+    u64 pack @calculatedFrom(""a\\""),
+    @rightPad('0')
+    T {
+        zchar[3] u8x @calculatedFrom(""CRC32"") `two words`,
+        o {
+            _x {
+                // " ++ [27880; 37322]%N ++ runes_of_ascii "
+                float32 calculatedFrom,
+            },
+            repeat int64 u128,
+            float32 string_ @lengthOf(msg_type) `say ""hi""`,
+        },
+    },
+    i16 charz `a\`,
+    @lengthOf(x)
+    leftPad {
+        As {
+            int64 i8i8,
+        },
+        // packet A { u8 x, }
+    },
+    @tag(7)
+    @tag(7)
+    x_y_z @lengthOf(body),
+    @tag(007)
+    repeat calculatedFrom _x,
+    @calculatedFrom(""\n"")
+    repeat u8 trueish,
+    i16 calculatedFrom `it's`,
+}
+
+packet A {
+    match As as chars {
+        ""1"" : options1,
+    },
+}
+
+packet Packet {
+    @leftPad('\x00')
+    float64 matchKey,
+    zchar[65535] Pad `" ++ [233]%N ++ runes_of_ascii "`,
+    repeat uint32 options1,
+    @calculatedFrom(""// no comment"")
+    char[] metadata `// not a comment`,
+    Header @calculatedFrom(""packet"") ``,
+}
+// a // b")).
+Eval vm_compute in ("<<<M3852>>>" ++ check (runes_of_ascii "packet Packet {
+    Logon @lengthOf(chars),
+    @lengthOf(stringy)
+    int {
+        // a // b
+        char[1] rootA,
+        repeat repeatCount `it's`,
+        i8 calculatedFrom,
+    },
+    _x u128,
+    //	t
+    i16 uint8x @lengthOf(a1),
+    a1 @calculatedFrom(""" ++ [233]%N ++ runes_of_ascii "t" ++ [233]%N ++ runes_of_ascii """),
+    @lengthOf(x)
+    repeat x_y_z {
+        int32 crc @calculatedFrom(""packet""),
+        repeat string Z9_,
+        float64 len,
+    },
+    repeat options1 `" ++ [28040; 24687; 31867; 22411]%N ++ runes_of_ascii "`,
+    // a // b
+    // " ++ [128512]%N ++ runes_of_ascii " emoji
+    @leftPad(' ')
+    string msg_type @calculatedFrom(""a	b""),// trailing space 
+    repeat uint8 trueish `line1
+        line2`,
+}
+
+options {
+    body = ""\" ++ [233]%N ++ runes_of_ascii """
+}
+
+packet pack {
+    /// triple
+    @lengthOf(matchKey)
+    char[3] a1,
+    @leftPad()
+    @calculatedFrom(""it's"")
+    repeat f32a {
+        zchar[00] lengthOf,
+        stringy u8x,
+        As {
+            A @calculatedFrom(""abc""),
+            match u8x as crc {
+                65535 : trueish,
+                ""a	b"" : matchKey,
+                // " ++ [128512]%N ++ runes_of_ascii " emoji
+            },
+        },
+        trueish @calculatedFrom(""\n"") `say ""hi""`,
+    },
+}
+
+packet stringy {
+    char[4294967296] u8x,
+}")).
+Eval vm_compute in ("<<<M494>>>" ++ check (runes_of_ascii "packet leftPad //x
+{uint16 x , lengthOf // a // b
+chars `// not a comment` , @calculatedFrom( ""a\\"") repeat
+char[] As`{ , }`
+, metadata
+@calculatedFrom(
+    ""// no comment"" ),
+uint32 f32a`
+`
+, @tag( // @lengthOf(
+255) repeat trueish `doc` ,
+char[] trueish
+@lengthOf(
+len )
+,int16
+i64_ ,
+@calculatedFrom( ""\n""
+)
+i8i8 `" ++ [28040; 24687; 31867; 22411]%N ++ runes_of_ascii "`  ,
+    } root
+    packet crc { repeat uint8x	packetx, match
+u8x as T {
+0
+: crc,1  : T ,
+    [ ""a\\""// c
+, 0123456789 , 00 ] : chars ,	7 :
+T //	t
+,	}// a // b
+,
+roots  @lengthOf(	lengthOf
+    ) `two words`
+    , match
+rootA as A{
+10
+    : x ,
+    }, crc @calculatedFrom( ""a	b""
+    )
+    , chars {
+match lengthOf as Header
+{4294967296 :// c
+zchar
+, [4294967296 ,
+""a\\""
+    ]: asx ,}
+,_x  @calculatedFrom(
+    ""\" ++ [233]%N ++ runes_of_ascii """)`tab	here` // a // b
+, },} //
+MetaData asx { zchar[
+    42	] uint8x
+// `tick` ""quote"" 'q'
+// `tick` ""quote"" 'q'
+, uint8
+    Logon //x
+`// not a comment` , } MetaData
+    o
+//	t
+//x
+{ u16 // " ++ [27880; 37322]%N ++ runes_of_ascii "
+_x , x_y_z float `crlf
+line`,BodyLength calculatedFrom
+    `tab	here` ,
+    uint16
+MetaDataX , }
+")).
+Eval vm_compute in ("<<<M1297>>>" ++ check (runes_of_ascii "packet packetx{ stringy{ repeat  matchKey
+    { match
+    falsey as matchKey
+{ 0123456789 :
+float ,
+[
+""abc"" ] :u128
+// " ++ [27880; 37322]%N ++ runes_of_ascii "
+// " ++ [128512]%N ++ runes_of_ascii " emoji
+""x y"" :// " ++ [27880; 37322]%N ++ runes_of_ascii "
+i8i8 } , match  falsey as Foo { 65535// " ++ [128512]%N ++ runes_of_ascii " emoji
+:trueish,
+} ,
+    },  char[]  roots@calculatedFrom(
+    """ ++ [28040; 24687]%N ++ runes_of_ascii """), zchar[ 0123456789
+// " ++ [27880; 37322]%N ++ runes_of_ascii "
+// `tick` ""quote"" 'q'
+]i64_ ,	zchar[ 42 ] MetaDataX
+@lengthOf( len  )
+,  }
+, pack @lengthOf(  crc)//x
+, @tag( 65535 )
+    @leftPad	(
+) @lengthOf(
+    asx ) u8x {repeat uint64 Pad, x_y_z _x `
+`, }
+, MetaDataX stringy,
+    // trailing space 
+    @lengthOf( BodyLength ) string calculatedFrom
+@calculatedFrom(""\n"" )
+    `line1
+line2` , u32
+u8x , @tag(
+    007
+//
+// c
+)
+//
+//
+@lengthOf( // packet A { u8 x, }
+asx
+    ) repeat uint8x { match  float
+as // @lengthOf(
+As{ [ ""1"" ,"""" , 255
+,
+255 ,
+007 , ""1""// " ++ [27880; 37322]%N ++ runes_of_ascii "
+]
+: rootA""1""
+    : msg_type // c
+,
+65535: f32a , ""x y""
+:
+    //
+    leftPad}
+    , }
+    // trailing space 
+    , u8 asx `u8 x,`, len `it's`,}
+//x
+/// triple
+options {
+falsey =
+true }
+")).
+Eval vm_compute in ("<<<M4170>>>" ++ check (runes_of_ascii "//x
+packet u8x {
+    @lengthOf(As)
+    repeat char[4294967296] int `{ , }`,
+    repeat int8 len `two words`,
+}
+
+root packet tag {
+}
+
+root packet rootA {
+    o @calculatedFrom(""""),
+    leftPad i64_ `it's`,// " ++ [27880; 37322]%N ++ runes_of_ascii "
+    @tag(7)
+    float,
+    int32 x_y_z,
+    repeat roots {
+        zchar[10] a1,
+        f32a options1 `crlf
+        line`,
+        match _x as zchar {
+            1 : u8x,
+            ""// no comment"" : float,
+            [4294967296, 10, """ ++ [233]%N ++ runes_of_ascii "t" ++ [233]%N ++ runes_of_ascii """, """ ++ [28040; 24687]%N ++ runes_of_ascii """, 1] : u128,
+            [""\" ++ [233]%N ++ runes_of_ascii """, 42] : stringy,
+            [1, ""\n""] : falsey,
+        },
+        string charz @calculatedFrom(""""),
+    },
+    char[] options1 `
+    `,
+    //	t
+    /// triple
+    u8x {
+        repeat msg_type matchKey `u8 x,`,
+    },
+    A @lengthOf(pack),
+    i64 stringy,
+}
+
+packet i8i8 {
+    i64_ u128,
+    @lengthOf(u8x)
+    repeat float64 f32a,
+    @calculatedFrom(""`tick`"")
+    pack `" ++ [233]%N ++ runes_of_ascii "`,
+    uint64 Z9_ @calculatedFrom("""") `tab	here`,
+}")).
+Eval vm_compute in ("<<<M163>>>" ++ check (runes_of_ascii "packet
+    // `tick` ""quote"" 'q'
+    u8x {} packet calculatedFrom
+    {
+    i8i8
+len
+,
+    match lengthOf as leftPad
+{ 007
+    : crc
+, ""abc"": o 10 : falsey
+    } , repeat  i8
+metadata  , @calculatedFrom(""" ++ [28040; 24687]%N ++ runes_of_ascii """ ) repeat int16
+leftPad
+    // trailing space 
+    ``
+    ,BodyLength
+    @calculatedFrom(  ""a\\""
+    ) ,
+char[] f32a,
+    tag// packet A { u8 x, }
+rootA
+, @rightPad (
+    // " ++ [27880; 37322]%N ++ runes_of_ascii "
+    ' ' ) @tag( 007 ) match o as
+    // " ++ [27880; 37322]%N ++ runes_of_ascii "
+    _x { [ 1
+    // " ++ [27880; 37322]%N ++ runes_of_ascii "
+    ,
+""a	b""
+, ""1"" ,
+00 ,7
+// " ++ [128512]%N ++ runes_of_ascii " emoji
+//x
+,""" ++ [233]%N ++ runes_of_ascii "t" ++ [233]%N ++ runes_of_ascii """
+    ,
+    // c
+    7 ,00
+    ]
+    : Foo ,
+    // " ++ [27880; 37322]%N ++ runes_of_ascii "
+    ""\" ++ [233]%N ++ runes_of_ascii """// @lengthOf(
+:  matchKey
+    ,},//x
+@rightPad (	'\x00' )string msg_type	, }
+packet  trueish {u8x
+``
+, @lengthOf( Header
+    )
+    repeat int64 int	`` ,
+} MetaData matchKey	{ string msg_type	, zchar[
+    //	t
+    4294967296
+]
+repeatCount `it's`
+, u8
+crc
+, zchar
+o ,int64 asx
+, }root
+packet chars{
+    }
+")).
+Eval vm_compute in ("<<<M989>>>" ++ check (runes_of_ascii "packet int
+// a // b
+// @lengthOf(
+{i16 Logon @calculatedFrom(
+    ""a\\"" ) ,  repeat
+calculatedFrom	`// not a comment` , @calculatedFrom(
+    // @lengthOf(
+    ""CRC32"" ) Z9_ charz , @lengthOf(  Z9_) /// triple
+matchKey  `u8 x,` , } MetaData asx { }packet
+Packet {
+    @tag( 65535  ) options1, int @lengthOf(
+metadata
+) `it's`,
+    //x
+    u8x{ char[00 ] Logon ,
+repeat  i32 T
+`// not a comment` , chars { float64
+msg_type@lengthOf(
+body	), f64 Z9_ ,
+// a // b
+// @lengthOf(
+u16 string_
+@lengthOf( int )`doc`	,//x
+repeatCount
+    @calculatedFrom( ""x y""	),} , }, match A/// triple
+as	u { [
+    ""packet"" , ""x y"" ] : f32a ,
+[
+65535 /// triple
+,00 ] :stringy 255 : pack
+    ,
+[ 0 , ""`tick`""
+    ] :
+x
+    ,
+    1 : matchKey
+, } , } packet
+    roots{
+@calculatedFrom( ""\n"" ) char[
+65535
+    // a // b
+    ] Packet , }
+")).
+Eval vm_compute in ("<<<M3824>>>" ++ check (runes_of_ascii "  packet
+    leftPad
+{ @tag( 1
+)
+    i8  // a // b
+crc
+
+    , float64	packetx `" ++ [233]%N ++ runes_of_ascii "`
+
+,
+	lengthOf	@lengthOf(	charz
+        // trailing space 
+  )	,
+repeat
+	Packet ,  @lengthOf(u)
+	@lengthOf( 	 // " ++ [27880; 37322]%N ++ runes_of_ascii "
+  T
+
+    )
+	repeat u16 uint8x
+    `" ++ [28040; 24687; 31867; 22411]%N ++ runes_of_ascii "`
+    ,
+
+zchar[
+
+10  ] 	 // a // b
+metadata
+``
+,  match  // packet A { u8 x, }
+  trueish
+as
+	options1  {
+0123456789 
+:  rootA,
+255
+    : MetaDataX
+
+[""a\\""
+
+, 	 /// triple
+      ""\n""
+	,	00	,
+10] :trueish
+,
+
+    ""CRC32""
+:  uint8x
+, 0 
+: Z9_,
+""1""  // c
+: 
+i8i8 
+  // `tick` ""quote"" 'q'
+  	// packet A { u8 x, }
+	, },
+@calculatedFrom( ""it's""	)
+uint8 chars`
+` 
+,
+
+    } options
+    // @lengthOf(
+    {
+	f32a
+    =i16
+	;// " ++ [128512]%N ++ runes_of_ascii " emoji
+	u
+	=
+	""abc""
+
+} 
+MetaData chars{
+
+i16
+    lengthOf,
+Packet
+msg_type	`crlf
+line`
+    ,	}// " ++ [27880; 37322]%N ++ runes_of_ascii "
+")).
+Eval vm_compute in ("<<<M870>>>" ++ check (runes_of_ascii "packet As { //	t
+char[ 4294967296
+    ] o
+    @calculatedFrom(
+    ""// no comment"" ) , @calculatedFrom( ""\" ++ [233]%N ++ runes_of_ascii """
+)Foo{ pack@lengthOf( uint8x  ) , } ,@calculatedFrom( ""it's"") @lengthOf( Pad ) //
+@calculatedFrom( """ ++ [128512]%N ++ runes_of_ascii """ )
+    repeat
+zchar[ 42 ]BodyLength ,
+match body  as
+T
+{
+    255 //x
+: msg_type
+// @lengthOf(
+// @lengthOf(
+, 4294967296 : metadata
+    , [ ""{,}"" , 4294967296
+] :f32a
+    7  : options1
+,
+    10 :
+    float , [
+    ""abc"" ,  ""abc""
+, 0
+    //x
+    ] : u ,
+}  , repeat
+    //	t
+    int64 o `
+`  , i8i8
+    `// not a comment` , } packet x { }  packet falsey	{
+    repeat char
+    Logon	, }packet
+    _x
+    {
+@calculatedFrom( ""a\""b"")@tag( 7
+// trailing space 
+// a // b
+) @calculatedFrom( ""a\\"" ) metadata
+    // " ++ [128512]%N ++ runes_of_ascii " emoji
+    , }
+")).
+Eval vm_compute in ("<<<M1014>>>" ++ check (runes_of_ascii "packet	Header {
+char repeatCount@lengthOf(a1
+    ) , Packet @calculatedFrom( ""{,}""
+    )
+    `tab	here` ,
+    _x
+    `" ++ [28040; 24687; 31867; 22411]%N ++ runes_of_ascii "` ,  @tag(
+255 ) u32
+    string_	@calculatedFrom( ""{,}"" ) `line1
+line2`// packet A { u8 x, }
+, options1 @lengthOf( len
+)
+`u8 x,` , @leftPad ( ' ' )
+lengthOf { char[
+65535 ] options1// " ++ [128512]%N ++ runes_of_ascii " emoji
+, MetaDataX @calculatedFrom( """ ++ [28040; 24687]%N ++ runes_of_ascii """ ) , } , @leftPad  ( '\x00' ) zchar[ 255 ]
+    pack @calculatedFrom(
+    ""1"")
+`u8 x,`  , u32 Header , @lengthOf(
+    falsey)	@rightPad
+(' ' )
+//x
+//x
+@calculatedFrom(
+// " ++ [128512]%N ++ runes_of_ascii " emoji
+/// triple
+""a\\"" ) msg_type , }
+    root packet chars{
+} options {}MetaData Pad{
+    string
+    // " ++ [128512]%N ++ runes_of_ascii " emoji
+    _x
+`{ , }` ,  Packet u128, zchar[
+4294967296 ] A
+    ``
+, }")).
+Eval vm_compute in ("<<<M4327>>>" ++ check (runes_of_ascii "packet x_y_z {
+    @leftPad()
+    int8 x_y_z,
+    @lengthOf(f32a)
+    repeat char[7] len,
+    int64 matchKey @calculatedFrom(""// no comment""),
+    @lengthOf(roots)
+    @lengthOf(MetaDataX)
+    int32 Packet,// a // b
+    @rightPad(' ')
+    i8i8 {
+        char Packet @lengthOf(crc) `" ++ [28040; 24687; 31867; 22411]%N ++ runes_of_ascii "`,
+    },
+    @calculatedFrom("""")
+    repeat zchar[255] i64_,
+    @tag(0123456789)
+    Logon,
+    @lengthOf(options1)
+    int32 Header,
+    @leftPad()
+    int64 crc,
+    @lengthOf(As)
+    match trueish as BodyLength {
+        ""\" ++ [233]%N ++ runes_of_ascii """ : x,
+        0123456789 : stringy,
+        [255, 0, """ ++ [128512]%N ++ runes_of_ascii """, ""packet""] : _x,
+        ""packet"" : o,
+        42 : stringy,
+        ""abc"" : Logon,
+    },
+}")).
+Eval vm_compute in ("<<<M375>>>" ++ check (runes_of_ascii "packet zchar
+{BodyLength x // `tick` ""quote"" 'q'
+, // trailing space 
+@rightPad ('0' )
+match _x as x { [
+    """ ++ [128512]%N ++ runes_of_ascii """ ] : falsey  , 65535
+:  chars 0 : falsey , [ ""packet""
+    ] :// c
+metadata	0 : repeatCount,00//
+:  packetx ,
+} , } packet crc  { match body
+//x
+//x
+as len {
+7:
+    leftPad
+,007 : x_y_z , 00
+:
+    x_y_z, [ 0, 10 ,
+10 , //	t
+10	] :	calculatedFrom // packet A { u8 x, }
+, ""packet"" : calculatedFrom } , @leftPad ( '0' ) @tag(
+4294967296
+    ) match u128 // c
+as trueish
+{	3
+: i64_
+    ,
+    }, char[255
+]o @lengthOf(leftPad
+    )
+`u8 x,` , } MetaData o {float
+roots ,
+    x_y_z MetaDataX , packetx zchar
+    , }")).
+Eval vm_compute in ("<<<M938>>>" ++ check (runes_of_ascii "options {	o/// triple
+= '0'
+; } packet // @lengthOf(
+u128	{
+// @lengthOf(
+// `tick` ""quote"" 'q'
+@calculatedFrom(""{,}"" )
+uint16
+pack
+@calculatedFrom( """ ++ [233]%N ++ runes_of_ascii "t" ++ [233]%N ++ runes_of_ascii """)
+, }
+packet
+A { //x
+u8 chars@lengthOf( BodyLength )
+    ,
+    lengthOf @calculatedFrom(//x
+""// no comment""
+    ) , x_y_z{ string
+    Pad  `" ++ [233]%N ++ runes_of_ascii "` ,
+    // " ++ [27880; 37322]%N ++ runes_of_ascii "
+    len{ zchar[ 0123456789 ]
+T
+    ,
+    match // a // b
+u128 as	metadata  { 3 : u128 , ""\n"" :x [ """ ++ [233]%N ++ runes_of_ascii "t" ++ [233]%N ++ runes_of_ascii """,
+//
+// " ++ [27880; 37322]%N ++ runes_of_ascii "
+""packet""
+    ] : // @lengthOf(
+tag 10
+: options1 , ""abc""
+    : // trailing space 
+u ,	},} ,tag
+@calculatedFrom(
+    // packet A { u8 x, }
+    """" )
+`it's`	, } , } // " ++ [27880; 37322]%N)).
+Eval vm_compute in ("<<<M3948>>>" ++ check (runes_of_ascii "packet packetx {
+    @calculatedFrom(""packet"")
+    // " ++ [27880; 37322]%N ++ runes_of_ascii "
+    @calculatedFrom(""// no comment"")
+    @leftPad('0')
+    //	t
+    Z9_ T,
+    leftPad uint8x,
+    @tag(4294967296)
+    leftPad {
+        roots {
+            char options1,
+        },
+        match Pad as int {
+            [10] : roots,
+            [
+                ""CRC32"", ""1"", 3, 7, 0,
+                0, ""CRC32"", 7
+            ] : Packet,
+            1 : tag,
+            1 : matchKey,
+            [42] : _x,
+        },
+        repeat tag {
+            metadata `" ++ [233]%N ++ runes_of_ascii "`,
+        },//	t
+        u `a\`,
+    },
+}")).
+Eval vm_compute in ("<<<M3982>>>" ++ check (runes_of_ascii "  root packet
+    Pad {
+
+@tag(65535 )  @lengthOf(
+
+matchKey
+
+    ) //
+
+int32
+	pack  ,// `tick` ""quote"" 'q'
+
+zchar[  65535
+]
+charz
+@calculatedFrom(""""
+	)
+
+    `crlf
+line`
+    ,
+    }
+
+    MetaData
+options1
+
+    {
+charz crc
+
+    //
+	  // " ++ [27880; 37322]%N ++ runes_of_ascii "
+  ,body packetx`// not a comment`
+
+,
+}	packet
+
+string_ {
+
+    char[7 // @lengthOf(
+  ]  T 
+@calculatedFrom( ""\" ++ [233]%N ++ runes_of_ascii """
+
+)// c
+  ,
+
+    @leftPad ('\x00' 
+)
+	@calculatedFrom(
+""packet""
+    ) @tag(42
+        // " ++ [128512]%N ++ runes_of_ascii " emoji
+	// " ++ [128512]%N ++ runes_of_ascii " emoji
+)
+    string	string_
+@calculatedFrom(
+    """ ++ [28040; 24687]%N ++ runes_of_ascii """
+	) `a\`
+	,
+} ")).
+Eval vm_compute in ("<<<M1150>>>" ++ check (runes_of_ascii "
+packet
+    // " ++ [27880; 37322]%N ++ runes_of_ascii "
+    chars {u8x metadata	`u8 x,` , @lengthOf( o
+) leftPad /// triple
+@lengthOf( leftPad)
+    `line1
+line2` , match  falsey as o //x
+{[ ""\" ++ [233]%N ++ runes_of_ascii """
+    ,""a\\"",00]: falsey,0 : u	""a\""b"" :	roots , """ ++ [128512]%N ++ runes_of_ascii """ :
+Foo, [
+    """ ++ [233]%N ++ runes_of_ascii "t" ++ [233]%N ++ runes_of_ascii """ , ""a\""b""//x
+, 7  ]	: // a // b
+string_
+    // a // b
+    ""a\\"" :
+    string_	,
+    },@calculatedFrom( ""a	b"" ) repeat body  `a\` , }options {stringy = 0 }packet
+    // a // b
+    chars {
+charz@calculatedFrom( ""a	b"" ) ,uint32 lengthOf, int8
+    repeatCount ,
+uint16 // @lengthOf(
+o`
+` ,
+    }")).
+Eval vm_compute in ("<<<M950>>>" ++ check (runes_of_ascii "root
+packet // " ++ [128512]%N ++ runes_of_ascii " emoji
+msg_type
+    {
+zchar[ 1  ] float
+    @lengthOf( A )
+    // packet A { u8 x, }
+    , u8x {// @lengthOf(
+repeat trueish {match
+    crc as Logon {
+    [ 1, 7 ]
+: // @lengthOf(
+A
+,} , } ,  } ,@tag(255
+    // c
+    ) match A as options1 { 7:body ,
+    [	""x y"", 3 /// triple
+, 0 ,7  , 0123456789] : tag ,
+    ""x y"" : crc
+    }	,	match stringy// packet A { u8 x, }
+as Z9_ { ""it's""
+// a // b
+// " ++ [128512]%N ++ runes_of_ascii " emoji
+: x_y_z
+    //
+    ,	1
+:pack }
+, //	t
+}
+MetaData repeatCount
+    {
+}
+")).
+Eval vm_compute in ("<<<M593>>>" ++ check (runes_of_ascii "root packet matchKey // trailing space 
+{ // a // b
+u8 roots `two words` , // " ++ [27880; 37322]%N ++ runes_of_ascii "
+} //	t
+root packet float {	@rightPad ( '0') i8i8
+    , packetx @calculatedFrom( ""a\\""
+) ,float32
+    trueish
+    `
+`  ,
+    @calculatedFrom(
+""x y"" // c
+)
+    @lengthOf( //
+o
+// c
+/// triple
+) @lengthOf( uint8x ) i16 Logon
+    , @leftPad (
+    ' ' ) @lengthOf(
+zchar	)
+@lengthOf(
+    x_y_z )
+o
+matchKey
+    `" ++ [233]%N ++ runes_of_ascii "` ,
+    match u8x	as Z9_  { ""a\""b"":// " ++ [27880; 37322]%N ++ runes_of_ascii "
+_x , } , crc
+BodyLength `it's` ,}
+//
+")).
+Eval vm_compute in ("<<<M4191>>>" ++ check (runes_of_ascii "  root packet //x
+  pack
+{
+    match  matchKey//	t
+    	as  int	// @lengthOf(
+	{
+    00
+
+:metadata , ""a\\"" 
+:
+	o 
+,""// no comment""
+
+    :  // `tick` ""quote"" 'q'
+	x
+	,
+	[  ""packet"" 
+]
+	:
+A	,	[  ""\n"" , 0123456789 
+,00 ,""// no comment""
+
+, 007 ,
+255 , 1
+
+, 	 // c
+  0 ]
+    // a // b
+    :  metadata
+	,
+
+[ 00
+	]
+:
+	Pad	,
+	}
+
+    , } // @lengthOf(
+    MetaData
+tag{  uint64 
+i64_
+    `doc` 
+,
+}	packet 
+BodyLength  {
+	repeat
+
+    u32 u128
+
+,} ")).
+Eval vm_compute in ("<<<M3874>>>" ++ check (runes_of_ascii "MetaData metadata {
+}
+
+packet u {
+    //
+    @lengthOf(T)
+    // packet A { u8 x, }
+    @lengthOf(u)
+    /// triple
+    @leftPad('0')
+    repeat uint8 x_y_z `" ++ [28040; 24687; 31867; 22411]%N ++ runes_of_ascii "`,
+}
+
+root packet A {
+    @tag(10)
+    repeat zchar[0] asx `doc`,
+    char[7] float @lengthOf(BodyLength) `crlf
+    line`,
+    zchar[0123456789] u128,
+    @rightPad()
+    repeat zchar[255] Packet ``,
+    BodyLength Pad,
+    @tag(1)
+    zchar[10] float @lengthOf(roots),
+}")).
+Eval vm_compute in ("<<<M617>>>" ++ check (runes_of_ascii "root packet BodyLength { int8 asx ``
+    , match stringy  as falsey
+    { 7
+:stringy } , Header `u8 x,` ,match string_  as falsey{ 007 :
+    BodyLength 65535:	roots [
+//
+//x
+10,
+00, ""a\""b""  , 0123456789 ,	3
+    , /// triple
+""" ++ [233]%N ++ runes_of_ascii "t" ++ [233]%N ++ runes_of_ascii """, ""x y"" , ""abc""
+] :
+crc , 0123456789
+    : f32a
+, 1
+    :
+    Logon,  [""CRC32"" // a // b
+,
+""a	b"" ,
+    65535 , ""1"" ,// trailing space 
+""1""	,
+65535 ] :
+zchar //	t
+,  } , i64_ , } //	t")).
+Eval vm_compute in ("<<<M4500>>>" ++ check (runes_of_ascii "options {
+    T = zchar[0123456789]
+}
+
+root packet Pad {
+    match repeatCount as pack {
+        [
+            3, 255, ""// no comment"", """ ++ [28040; 24687]%N ++ runes_of_ascii """, ""it's"",
+            255, ""it's""
+        ] : packetx,
+    },
+    @calculatedFrom(""CRC32"")
+    @lengthOf(Header)
+    @lengthOf(u)
+    match As as calculatedFrom {
+        [255, 00] : Z9_,
+        [""a	b""] : Header,
+    },
+    x_y_z,
+    // packet A { u8 x, }
+}")).
+Eval vm_compute in ("<<<M683>>>" ++ check (runes_of_ascii "MetaData float { u8 Packet
+    ,
+    string i64_ `" ++ [28040; 24687; 31867; 22411]%N ++ runes_of_ascii "`
+, charz pack , char
+rootA ,char[0123456789 ] msg_type ,
+    uint8 calculatedFrom , } packet	Pad
+    { }
+    root packet len{ // c
+matchKey
+    @calculatedFrom(""a\""b""
+    ) `u8 x,`
+, //x
+@leftPad
+    ( ) match roots as u128{ [  4294967296
+    // packet A { u8 x, }
+    , 007] :body , } , charz ,
+    // trailing space 
+    }")).
+Eval vm_compute in ("<<<M3712>>>" ++ check (runes_of_ascii "options {
+    Foo = ""packet"";
+}
+
+/// triple
+//	t
+options {
+    // `tick` ""quote"" 'q'
+    x = ' ';
+}// @lengthOf(
+
+MetaData calculatedFrom {
+    char[65535] asx,
+    zchar stringy `
+        `,
+    roots packetx,
+    zchar[3] options1,
+    float u8x,
+    char asx `doc`,
+}
+
+packet lengthOf {
+    uint16 calculatedFrom @calculatedFrom(""x y""),
+}// packet A { u8 x, }")).
+Eval vm_compute in ("<<<M1344>>>" ++ check (runes_of_ascii "packet x { @tag(7 // " ++ [27880; 37322]%N ++ runes_of_ascii "
+) @calculatedFrom(""{,}"")
+    int16
+    Packet @calculatedFrom(
+""it's""
+    ) `a\`
+    ,charz f32a// @lengthOf(
+, match metadata
+    as BodyLength{ [ 65535 , 3, 1 ,00,// `tick` ""quote"" 'q'
+""a	b""	]: // " ++ [27880; 37322]%N ++ runes_of_ascii "
+stringy , /// triple
+[ ""`tick`""
+] :
+//
+// packet A { u8 x, }
+float },
+@tag(  007 ) @tag(7)leftPad @lengthOf(pack) , }
+")).
+Eval vm_compute in ("<<<M955>>>" ++ check (runes_of_ascii "
+options { u128
+// c
+// packet A { u8 x, }
+=false
+}packet i64_
+{ @calculatedFrom( ""a	b"" ) Z9_ {
+    x_y_z`two words` , string_
+/// triple
+//x
+, }, match // trailing space 
+BodyLength as As {
+    //x
+    [
+""a\""b""]: Z9_	, } ,
+//	t
+// a // b
+char[]	asx
+,
+    i16
+crc `doc` , } packet o
+    { @leftPad ( '\x00' ) repeat u8x
+T,
+    }
+")).
+Eval vm_compute in ("<<<M1886>>>" ++ check (runes_of_ascii "MetaData
+    u { }  options {
+// c
+// @lengthOf(
+float float = int8 ;rootA =false ; As =	int16 // `tick` ""quote"" 'q'
+repeatCount
+    // trailing space 
+    =
+    int16
+; u8x =
+    //	t
+    '\x00' ; } options	{
+    repeatCount
+= 0
+u128
+    //
+    = false ; i64_
+// trailing space 
+// `tick` ""quote"" 'q'
+= '0' ; //	t
+}
+")).
+Eval vm_compute in ("<<<M1928>>>" ++ check (runes_of_ascii "MetaData
+    u { }  options {
+// c
+// @lengthOf(
+float = int8 ;rootA =false ; @tag( =	int16 // `tick` ""quote"" 'q'
+repeatCount
+    // trailing space 
+    =
+    int16
+; u8x =
+    //	t
+    '\x00' ; } options	{
+    repeatCount
+= 0
+u128
+    //
+    = false ; i64_
+// trailing space 
+// `tick` ""quote"" 'q'
+= '0' ; //	t
+}
+")).
+Eval vm_compute in ("<<<M2065>>>" ++ check (runes_of_ascii "MetaData
+    u { }  options {
+// c
+// @lengthOf(
+float = int8 ;rootA =false ; ' As =	int16 // `tick` ""quote"" 'q'
+repeatCount
+    // trailing space 
+    =
+    int16
+; u8x =
+    //	t
+    '\x00' ; } options	{
+    repeatCount
+= 0
+u128
+    //
+    = false ; i64_
+// trailing space 
+// `tick` ""quote"" 'q'
+= '0' ; //	t
+}
+")).
+Eval vm_compute in ("<<<M1902>>>" ++ check (runes_of_ascii "MetaData
+    u { }  options {
+// c
+// @lengthOf(
+float = int8 rootA; =false ; As =	int16 // `tick` ""quote"" 'q'
+repeatCount
+    // trailing space 
+    =
+    int16
+; u8x =
+    //	t
+    '\x00' ; } options	{
+    repeatCount
+= 0
+u128
+    //
+    = false ; i64_
+// trailing space 
+// `tick` ""quote"" 'q'
+= '0' ; //	t
+}
+")).
+Eval vm_compute in ("<<<M2047>>>" ++ check (runes_of_ascii "MetaData
     u { }  options {
 // c
 // @lengthOf(
@@ -2247,41 +1765,308 @@ repeatCount
     '\x00' ; } options	{
     repeatCount
 = 0
-u128")).
-Eval vm_compute in ("<<<M1243>>>" ++ check (runes_of_ascii "packet Header { char
-i8i8 @calculatedFrom( // c
-""a	b""
-    ) , //x
-u16
-    Z9_ ,	} MetaData As	{
-// a // b
-//x
-zchar[ 10
-]crc , } MetaData stringy{
-body metadata `
-` , char[] trueish	`doc`
-, char[] Logon `" ++ [28040; 24687; 31867; 22411]%N ++ runes_of_ascii "` ,
-    }
+u128
+    //
+    = false ; i64_
+// trailing space 
+// `tick` ""quote"" 'q'
+= '0' } //	t
+;
 ")).
-Eval vm_compute in ("<<<M1692>>>" ++ check (runes_of_ascii "options { trueish = ""`tick`"" ""`tick`"" ; string_= """ ++ [233]%N ++ runes_of_ascii "t" ++ [233]%N ++ runes_of_ascii """
+Eval vm_compute in ("<<<M1878>>>" ++ check (runes_of_ascii "MetaData
+    u { }  match {
+// c
+// @lengthOf(
+float = int8 ;rootA =false ; As =	int16 // `tick` ""quote"" 'q'
+repeatCount
+    // trailing space 
+    =
+    int16
+; u8x =
+    //	t
+    '\x00' ; } options	{
+    repeatCount
+= 0
+u128
+    //
+    = false ; i64_
+// trailing space 
+// `tick` ""quote"" 'q'
+= '0' ; //	t
+}
+")).
+Eval vm_compute in ("<<<M3807>>>" ++ check (runes_of_ascii "MetaData T {
+    Foo lengthOf,
+    string packetx `// not a comment`,
+    zchar[0] metadata `crlf
+        line`,
+    x string_ `line1
+        line2`,
+}
+
+packet repeatCount {
+    char[255] A @calculatedFrom(""a\\""),
+    float32 BodyLength @lengthOf(_x) `doc`,
+    char[] trueish @calculatedFrom(""packet""),
+}")).
+Eval vm_compute in ("<<<M1200>>>" ++ check (runes_of_ascii "root packet msg_type{
+repeat
+char[ 7 ]
+    o  `doc`,
+    @calculatedFrom( // packet A { u8 x, }
+""x y""
+    )repeat packetx tag ,
+char[]A
+    `doc`,
+    repeat
+// " ++ [128512]%N ++ runes_of_ascii " emoji
+// trailing space 
+BodyLength {
+//
+//
+int8
+As , i16 stringy , x_y_z {
+zchar[ 65535 ] matchKey
+@lengthOf( zchar ) ,}
+, }, } //")).
+Eval vm_compute in ("<<<M3592>>>" ++ check (runes_of_ascii "packet A {
+    u8 a,
+}
+packet B {
+    u16 b,
+}
+packet C {
+    u32 c,
+}
+root packet M {
+    u16 Kc, u16 Kb, u16 Ka,
+    match Kc as X {
+        9 : A,
+        10 : B,
+    },
+    match Kb as Y {
+        2 : C,
+        1 : A,
+    },
+    match Ka as Z {
+        1 : B,
+    },
+    A, B, C,
+}
+")).
+Eval vm_compute in ("<<<M676>>>" ++ check (runes_of_ascii "packet charz { @tag(7) repeat _x , }MetaData x	{ i32 float , f32 u8x,uint64
+rootA	`crlf
+line` , }  options{ T
+= f64 ;
+    calculatedFrom=
+true	}
+packet trueish {
+    } root
+    //	t
+    packet rootA
+{ crc _x `say ""hi""`, stringy
+    //
+    uint8x, repeat
+x_y_z`u8 x,`
+, }
+")).
+Eval vm_compute in ("<<<M3955>>>" ++ check (runes_of_ascii "
+options  { 
+  // c1
+    LittleEndian// c2
+    =
+true 
+  // c4
+
+  ; 
+    // c5
+
+}  // c6
+    root 	 // c7a
+	// c7b
+packet 
+	    // c8
+  P {	repeat	// c11a
+// c11b
+    char 
+
+// c12
+	  cs 
+    // c13
+	, u8
+
+x  // c16
+      , 
+// c17
+		}	// c18a
+	// c18b
+")).
+Eval vm_compute in ("<<<M1084>>>" ++ check (runes_of_ascii "packet
+tag { int8 packetx , }packet Foo/// triple
+{//x
+repeatCount@calculatedFrom( ""x y"" /// triple
+)
+,char[00
+] As @lengthOf( a1 )
+`crlf
+line`
+,
+    @tag( 10) len {  char[	10// " ++ [128512]%N ++ runes_of_ascii " emoji
+] matchKey `" ++ [233]%N ++ runes_of_ascii "` , f32a@lengthOf( u128
+    )
+    `it's` ,
+    } ,
+}
+")).
+Eval vm_compute in ("<<<M1533>>>" ++ check (runes_of_ascii "packet
+//	t
+// trailing space 
+_x {
+// packet A { u8 x, }
+// c
+char[
+3
+    ] u8x @lengthOf(
+u8x ) ) , @calculatedFrom(""" ++ [128512]%N ++ runes_of_ascii """ // @lengthOf(
+)
+i16	Foo
+@lengthOf(	string_
+    )`doc`	, repeat	i64 metadata , @lengthOf( string_
+) i8 // c
+u  `line1
+line2`	,
+}
+")).
+Eval vm_compute in ("<<<M1671>>>" ++ check (runes_of_ascii "packet
+//	t
+// trailing space 
+_x {
+// packet A { u8 x, }
+// c
+char[
+3
+    ] u8x @lengthOf(
+u8x ) , @calculatedFrom(""" ++ [128512]%N ++ runes_of_ascii """ // @lengthOf(
+)
+i16	" ++ [252]%N ++ runes_of_ascii "ber
+@lengthOf(	string_
+    )`doc`	, repeat	i64 metadata , @lengthOf( string_
+) i8 // c
+u  `line1
+line2`	,
+}
+")).
+Eval vm_compute in ("<<<M1609>>>" ++ check (runes_of_ascii "packet
+//	t
+// trailing space 
+_x {
+// packet A { u8 x, }
+// c
+char[
+3
+    ] u8x @lengthOf(
+u8x ) , @calculatedFrom(""" ++ [128512]%N ++ runes_of_ascii """ // @lengthOf(
+)
+i16	Foo
+@lengthOf(	string_
+    )`doc`	, repeat	i64 metadata @lengthOf( , string_
+) i8 // c
+u  `line1
+line2`	,
+}
+")).
+Eval vm_compute in ("<<<M1492>>>" ++ check (runes_of_ascii "packet
+//	t
+// trailing space 
+ {
+// packet A { u8 x, }
+// c
+char[
+3
+    ] u8x @lengthOf(
+u8x ) , @calculatedFrom(""" ++ [128512]%N ++ runes_of_ascii """ // @lengthOf(
+)
+i16	Foo
+@lengthOf(	string_
+    )`doc`	, repeat	i64 metadata , @lengthOf( string_
+) i8 // c
+u  `line1
+line2`	,
+}
+")).
+Eval vm_compute in ("<<<M3940>>>" ++ check (runes_of_ascii "packet packetx {
+    @leftPad('0')
+    @lengthOf(T)
+    @calculatedFrom(""\" ++ [233]%N ++ runes_of_ascii """)
+    match i64_ as tag {
+        ""abc"" : Header,
+        [7] : chars,
+        ""a	b"" : f32a,
+        ""\" ++ [233]%N ++ runes_of_ascii """ : f32a,
+        ""CRC32"" : zchar,
+        ""abc"" : Z9_,
+    },
+}")).
+Eval vm_compute in ("<<<M590>>>" ++ check (runes_of_ascii "MetaData
+As  {BodyLength roots	, uint8x
+    uint8x
+    , } packet pack
+    /// triple
+    { lengthOf `crlf
+line` , char
+i8i8 ,
+@tag( 4294967296) zchar[ 1 ] Header `say ""hi""` , @tag(4294967296 )
+    string chars,	}
+// trailing space 
+")).
+Eval vm_compute in ("<<<M716>>>" ++ check (runes_of_ascii "MetaData  u8x{ msg_type T
+    `it's` ,
+// `tick` ""quote"" 'q'
+// trailing space 
+zchar[
+    4294967296
+]	len/// triple
+, u32 chars `a\` , metadata calculatedFrom
+`{ , }`
+,
+    } packet Z9_ {	}  root packet
+Logon {}
+/// triple
+")).
+Eval vm_compute in ("<<<M677>>>" ++ check (runes_of_ascii "root packet
+    leftPad
+    { @lengthOf(
+/// triple
+//x
+_x ) // trailing space 
+stringy{
+Pad //
+{ stringy falsey , int32 metadata @lengthOf( x_y_z)
+, }, }
+, @rightPad ( )
+@tag( 10 ) BodyLength
+    `say ""hi""`
+,
+    }")).
+Eval vm_compute in ("<<<M1792>>>" ++ check (runes_of_ascii "options { trueish = ""`tick`"" ; string_= """ ++ [233]%N ++ runes_of_ascii "t" ++ [233]%N ++ runes_of_ascii """
     // c
     } root
     packet body { stringy @calculatedFrom(
 ""a	b"" ) `line1
 line2` , }
 packet Logon {
-    @leftPad(
+    @leftPad @leftPad(
     ' ' ) //	t
 u16 string_ `u8 x,` ,
 }
 ")).
-Eval vm_compute in ("<<<M1782>>>" ++ check (runes_of_ascii "options { trueish = ""`tick`"" ; string_= """ ++ [233]%N ++ runes_of_ascii "t" ++ [233]%N ++ runes_of_ascii """
+Eval vm_compute in ("<<<M1712>>>" ++ check (runes_of_ascii "options { trueish = ""`tick`"" ; string_= """ ++ [233]%N ++ runes_of_ascii "t" ++ [233]%N ++ runes_of_ascii """ """ ++ [233]%N ++ runes_of_ascii "t" ++ [233]%N ++ runes_of_ascii """
     // c
     } root
     packet body { stringy @calculatedFrom(
 ""a	b"" ) `line1
 line2` , }
-packet Logon Logon {
+packet Logon {
     @leftPad(
     ' ' ) //	t
 u16 string_ `u8 x,` ,
@@ -2336,283 +2121,7 @@ packet i8 {
 u16 string_ `u8 x,` ,
 }
 ")).
-Eval vm_compute in ("<<<M1162>>>" ++ check (runes_of_ascii "packet
-chars{ @tag( 7 )char options1
-    // a // b
-    @calculatedFrom( ""a\""b"" ) , Logon	,  zchar[	42 ]u128 ,} options { roots
-    =
-false ; u128 ='0' ; metadata = uint8 ;  falsey
-= //x
-true ;	}
-")).
-Eval vm_compute in ("<<<M4123>>>" ++ check (runes_of_ascii "packet roots {
-    @lengthOf(pack)
-    @tag(4294967296)
-    As i8i8 `line1
-        line2`,
-    repeat Header A,
-    @lengthOf(roots)
-    @lengthOf(packetx)
-    @tag(42)
-    repeat int8 Logon,
-}")).
-Eval vm_compute in ("<<<M3849>>>" ++ check (runes_of_ascii "root packet rootA {
-}
-
-root packet _x {
-    i64_,// a // b
-}
-
-MetaData options1 {
-    a1 float `crlf
-    line`,
-    u8x falsey `" ++ [233]%N ++ runes_of_ascii "`,
-    f32a MetaDataX,
-    int64 u8x,
-}
-
-packet f32a {
-}")).
-Eval vm_compute in ("<<<M4515>>>" ++ check (runes_of_ascii "
-
-  packet	Logon 
-{stringy
-crc
-    `crlf
-line` 
-, T@calculatedFrom(  ""a\""b""  ) 	 // packet A { u8 x, }
-  `u8 x,`	// " ++ [27880; 37322]%N ++ runes_of_ascii "
-    ,
-
-    }	options  {
-    leftPad
-
-    = '\x00' 
-}
-")).
-Eval vm_compute in ("<<<M216>>>" ++ check (runes_of_ascii "MetaData msg_type { }root
-    packet T{@rightPad (
-    )
-    repeat char[ 3 ]	x_y_z ,
-    @lengthOf(
-roots  ) string	i64_ @lengthOf(
-u8x // a // b
-) `// not a comment`	,}")).
-Eval vm_compute in ("<<<M4280>>>" ++ check (runes_of_ascii "
-options
-    { 
-matchKey
-
-    = 10 }
-
-MetaData	options1 {
-	matchKey o  `doc`	,  rootA
-	tag , uint32
-_x 	 /// triple
-`line1
-line2` ,	char[] chars `say ""hi""` ,
-
-} ")).
-Eval vm_compute in ("<<<M4170>>>" ++ check (runes_of_ascii "// top
-root packet matchKey {
-    // c3
-    zchar[3] pack @calculatedFrom(""a	b"") `doc`,// c12
-}// c13
-
-options {
-}// c16
-
-MetaData A {
-    int8 msg_type,
-}// c23")).
-Eval vm_compute in ("<<<M531>>>" ++ check (runes_of_ascii "options
-    { // " ++ [27880; 37322]%N ++ runes_of_ascii "
-i64_//x
-= ""1""
-} options {matchKey =
-65535 Header = ""x y"" stringy
-=
-//	t
-// a // b
-true;  } MetaData int {	i8i8
-charz `u8 x,` ,
-    } 	 ")).
-Eval vm_compute in ("<<<M2389>>>" ++ check (runes_of_ascii "// c
-packet x { @lengthOf( metadata ) repeat lengthOf
-,a1{
-trueish	,// c
-repeat//	t
-MetaDataX , } , zchar[
-    42	] ] rootA // `tick` ""quote"" 'q'
-,
-    }
-")).
-Eval vm_compute in ("<<<M2150>>>" ++ check (runes_of_ascii "options{
-_x
-= true
-} options
-{ o	= /// triple
-false
-    ; chars
-= ""\n"" } } root packet	Pad
-/// triple
-// packet A { u8 x, }
-{	chars
-    // a // b
-    ,}")).
-Eval vm_compute in ("<<<M2182>>>" ++ check (runes_of_ascii "options{
-_x
-= true
-} options
-{ o	= /// triple
-false
-    ; chars
-= ""\n"" } root packet	Pad
-/// triple
-// packet A { u8 x, }
-{	chars
-    // a // b
-    i8}")).
-Eval vm_compute in ("<<<M2116>>>" ++ check (runes_of_ascii "options{
-_x
-= true
-} options
-{ =	o /// triple
-false
-    ; chars
-= ""\n"" } root packet	Pad
-/// triple
-// packet A { u8 x, }
-{	chars
-    // a // b
-    ,}")).
-Eval vm_compute in ("<<<M2149>>>" ++ check (runes_of_ascii "options{
-_x
-= true
-} options
-{ o	= /// triple
-false
-    ; chars
-= ""\n""  root packet	Pad
-/// triple
-// packet A { u8 x, }
-{	chars
-    // a // b
-    ,}")).
-Eval vm_compute in ("<<<M2079>>>" ++ check (runes_of_ascii "f64{
-_x
-= true
-} options
-{ o	= /// triple
-false
-    ; chars
-= ""\n"" } root packet	Pad
-/// triple
-// packet A { u8 x, }
-{	chars
-    // a // b
-    ,}")).
-Eval vm_compute in ("<<<M3572>>>" ++ check (runes_of_ascii "root packet // c1
-P
-    // c2
-{
-    // c3
-repeat // c4
-string ss // c6
-,
-    // c7
-repeat // c8
-u16
-    // c9
-ns
-    // c10
-, // c11
-}
-    // c12
-")).
-Eval vm_compute in ("<<<M518>>>" ++ check (runes_of_ascii "
-MetaData packetx
-    {	len Packet ,x
-// `tick` ""quote"" 'q'
-// a // b
-A ,
-matchKey lengthOf `{ , }`
-    , char[
-7 ]
-    Z9_ , A
-    rootA,
-}
-")).
-Eval vm_compute in ("<<<M3800>>>" ++ check (runes_of_ascii "
-
-  options	// a // b
-    	{
-
-    crc
-
-=
-
-    '0' ;	_x
-=  ""a\""b""trueish
-	=
-
-char[ 
-1
-
-]
-charz // c
-		=
-
-00	;  As= 	 // c
-	""a\""b""
-}
-")).
-Eval vm_compute in ("<<<M4339>>>" ++ check (runes_of_ascii "packet 
-A {match
-	k
-
-    as 
-n 
-{[ ""a""  ,
-	""bb""
-    ,
-007
-,
-    ""d""
-
-,""e""
-	,
-	66	,	""g""
-
-,
-""h""]  : B  ,
-
-    2	:
-	C
-    } ,
-}")).
-Eval vm_compute in ("<<<M4562>>>" ++ check (runes_of_ascii "packet uint8x {
-    @tag(65535)
-    char[7] trueish @lengthOf(options1) `{ , }`,
-}
-
-MetaData rootA {
-}
-
-root packet leftPad {
-}")).
-Eval vm_compute in ("<<<M1438>>>" ++ check (runes_of_ascii "
-packet
-    falsey { Header@calculatedFrom(""packet""  ) , char[ char[
-    0123456789 ] packetx
-    , } // `tick` ""quote"" 'q'")).
-Eval vm_compute in ("<<<M3313>>>" ++ check (runes_of_ascii "root
-// c
-packet matchKey { zchar[ 3 ] pack @calculatedFrom( ""a	b"" ) `doc` , } options { } MetaData A { int8 msg_type , }")).
-Eval vm_compute in ("<<<M3345>>>" ++ check (runes_of_ascii "root packet matchKey { zchar[ 3 ] pack @calculatedFrom( ""a	b"" ) `doc` , } options { }
-// c
-MetaData A { int8 msg_type , }")).
-Eval vm_compute in ("<<<M1556>>>" ++ check (runes_of_ascii "packet
+Eval vm_compute in ("<<<M1611>>>" ++ check (runes_of_ascii "packet
 //	t
 // trailing space 
 _x {
@@ -2621,240 +2130,485 @@ _x {
 char[
 3
     ] u8x @lengthOf(
-u8x ) , @calculatedFrom(""" ++ [128512]%N ++ runes_of_ascii """")).
-Eval vm_compute in ("<<<M1434>>>" ++ check (runes_of_ascii "
-packet
-    falsey { Header@calculatedFrom(""packet""  ) char[ ,
-    0123456789 ] packetx
-    , } // `tick` ""quote"" 'q'")).
-Eval vm_compute in ("<<<M626>>>" ++ check (runes_of_ascii "packet i8i8 { } packet options1{
-    @lengthOf( uint8x
-    ) pack @lengthOf(MetaDataX
-) // c
-, uint8x `say ""hi""`, }")).
-Eval vm_compute in ("<<<M4452>>>" ++ check (runes_of_ascii "packet A {
-    u16 len @lengthOf(body) `
-    `,
-    u32 crc @calculatedFrom(""CRC32"") `
-    `,
-    string body,
-}")).
-Eval vm_compute in ("<<<M3778>>>" ++ check (runes_of_ascii "
-packet chars{} 
-packet
-	MetaDataX
-{
-	@tag( 42
+u8x ) , @calculatedFrom(""" ++ [128512]%N ++ runes_of_ascii """ // @lengthOf(
+)
+i16	Foo
+@lengthOf(	string_
+    )`doc`	, repeat	i64 metadata")).
+Eval vm_compute in ("<<<M354>>>" ++ check (runes_of_ascii "MetaData u128 { char[]falsey ,u8  roots	, i8
+u `doc`, packetx int ,
+}// c
+packet asx
+{ }
+options	{ matchKey= ""// no comment"" Logon
+= char[]
+    u128=
+false options1 =' '
+len
+    = '\x00'  }")).
+Eval vm_compute in ("<<<M3595>>>" ++ check (runes_of_ascii "options {
+    FixedStringPadChar = '0';
+}
+packet Q {
+    zchar[4] z,
+    @rightPad('\x00') char[3] n,
+    char[5] d,
+}
+root packet R {
+    Q,
+    zchar[8] top,
+    repeat zchar[2] zs,
+}
+")).
+Eval vm_compute in ("<<<M967>>>" ++ check (runes_of_ascii "packet
+f32a {int16 x	@calculatedFrom( ""{,}"" ) ,  repeat char[]
+    As	, repeat char[] u128 , stringy @calculatedFrom( ""a	b"") ,
+    } MetaData A
+    { zchar[
+    65535	] //
+body,}")).
+Eval vm_compute in ("<<<M1810>>>" ++ check (runes_of_ascii "options { trueish = ""`tick`"" ; string_= """ ++ [233]%N ++ runes_of_ascii "t" ++ [233]%N ++ runes_of_ascii """
     // c
-	) 
-i16 
-string_
-	, repeat
-x
-
-    `say ""hi""`,}
-
+    } root
+    packet body { stringy @calculatedFrom(
+""a	b"" ) `line1
+line2` , }
+packet Logon {
+    @leftPad(
+    ' '")).
+Eval vm_compute in ("<<<M1257>>>" ++ check (runes_of_ascii "root packet falsey {
+repeat char[] leftPad	, repeat
+f64 // " ++ [128512]%N ++ runes_of_ascii " emoji
+_x `{ , }` , @tag(  0)
+    // `tick` ""quote"" 'q'
+    uint64 float
+    @calculatedFrom(""{,}"") , }
 ")).
-Eval vm_compute in ("<<<M2986>>>" ++ check (runes_of_ascii "packet A {
-  match k as n {
-    [""a"", ""bb"", 007, ""d"", ""e"", 66, ""g"", ""h"", 9, ""j"", ""k""] : B
-    2 : C
-  },
+Eval vm_compute in ("<<<M1287>>>" ++ check (runes_of_ascii "  packet rootA { asx , @tag(
+    //x
+    10 // " ++ [128512]%N ++ runes_of_ascii " emoji
+)	@tag( 1	) @calculatedFrom( ""1"" ) /// triple
+charz @calculatedFrom( ""a\\"")`line1
+line2`, // @lengthOf(
 }")).
-Eval vm_compute in ("<<<M2996>>>" ++ check (runes_of_ascii "packet A {
-  match k as n {
-    [1, 22, ""c c"", 4, 5, ""f"", 7, 8, ""i"", 10, 11, ""l""] : B,
-    2 : C
-  },
-}")).
-Eval vm_compute in ("<<<M2980>>>" ++ check (runes_of_ascii "packet A {
-  match k as n {
-    [1, ""bb"", 007, ""d"", 5, ""f"", 7, ""h"", 9, ""j"", 11] : B
-    2 : C
-  },
-}")).
-Eval vm_compute in ("<<<M2984>>>" ++ check (runes_of_ascii "packet A {
-  match k as n {
-    [1, 22, ""c c"", 4, 5, ""f"", 7, 8, ""i"", 10, 11] : B
-    2 : C
-  },
-}")).
-Eval vm_compute in ("<<<M172>>>" ++ check (runes_of_ascii "
-options
-    // " ++ [128512]%N ++ runes_of_ascii " emoji
-    {  roots= false ; f32a = ""// no comment""
-// " ++ [128512]%N ++ runes_of_ascii " emoji
-// a // b
-;
-}
+Eval vm_compute in ("<<<M2346>>>" ++ check (runes_of_ascii "// c
+packet match { @lengthOf( metadata ) repeat lengthOf
+,a1{
+trueish	,// c
+repeat//	t
+MetaDataX , } , zchar[
+    42	] rootA // `tick` ""quote"" 'q'
+,
+    }
 ")).
-Eval vm_compute in ("<<<M2239>>>" ++ check (runes_of_ascii "options
-{ } options { BodyLength string u16 Header= f64 ; u128 =
-    true
-    ; } // a // b")).
-Eval vm_compute in ("<<<M3268>>>" ++ check (runes_of_ascii "
-// c
-MetaData float { float64 charz `
-` , } root packet chars { @rightPad ( '0' ) Foo , }")).
-Eval vm_compute in ("<<<M3281>>>" ++ check (runes_of_ascii "MetaData float { float64 charz `
-` , // c
-} root packet chars { @rightPad ( '0' ) Foo , }")).
-Eval vm_compute in ("<<<M3492>>>" ++ check (runes_of_ascii "packet chars { }
-// c
-packet MetaDataX { @tag( 42 ) i16 string_ , repeat x `say ""hi""` , }")).
-Eval vm_compute in ("<<<M1944>>>" ++ check (runes_of_ascii "MetaData
-    u { }  options {
-// c
-// @lengthOf(
-float = int8 ;rootA =false ; As =	int16")).
-Eval vm_compute in ("<<<M2298>>>" ++ check (runes_of_ascii "options
-{ } options { BodyLength= u16 Header= f64 ; " ++ [8232]%N ++ runes_of_ascii "u128 =
-    true
-    ; } // a // b")).
-Eval vm_compute in ("<<<M2228>>>" ++ check (runes_of_ascii "options
-{ } options BodyLength {= u16 Header= f64 ; u128 =
-    true
-    ; } // a // b")).
-Eval vm_compute in ("<<<M3231>>>" ++ check (runes_of_ascii "packet metadata { Logon { A `" ++ [28040; 24687; 31867; 22411]%N ++ runes_of_ascii "` , tag o // c
-, } , zchar len `// not a comment` , }")).
-Eval vm_compute in ("<<<M2251>>>" ++ check (runes_of_ascii "options
-{ } options { BodyLength= u16 Header f64 ; u128 =
-    true
-    ; } // a // b")).
-Eval vm_compute in ("<<<M3451>>>" ++ check (runes_of_ascii "packet o { repeat Logon uint8x , } options { asx = // c
-zchar[ 3 ] stringy = '\x00' }")).
-Eval vm_compute in ("<<<M270>>>" ++ check (runes_of_ascii "MetaData _x{ } packet calculatedFrom {
-}MetaData
-_x	{i32
-    body
-    , uint8 x , }")).
-Eval vm_compute in ("<<<M3396>>>" ++ check (runes_of_ascii "MetaData body // c
-{ i64 pack `it's` , } packet stringy { int16 calculatedFrom , }")).
-Eval vm_compute in ("<<<M2234>>>" ++ check (runes_of_ascii "options
-{ } options { match= u16 Header= f64 ; u128 =
-    true
-    ; } // a // b")).
-Eval vm_compute in ("<<<M2923>>>" ++ check (runes_of_ascii "packet A {
-  match k as n {
-    [1, 22, 007, 4, 5, 66, 7] : B,
-    2 : C
-  },
-}")).
-Eval vm_compute in ("<<<M630>>>" ++ check (runes_of_ascii "packet u { repeat uint64 Pad
-`a\` ,} packet string_ { repeat a1 Packet
-,}
+Eval vm_compute in ("<<<M2352>>>" ++ check (runes_of_ascii "// c
+packet x { @lengthOf( metadata ) repeat lengthOf
+,a1{
+trueish	,// c
+repeat//	t
+MetaDataX , } , , zchar[
+    42	] rootA // `tick` ""quote"" 'q'
+,
+    }
 ")).
-Eval vm_compute in ("<<<M451>>>" ++ check (runes_of_ascii "options{ } root
-packet
-    packetx {
-// `tick` ""quote"" 'q'
-// " ++ [128512]%N ++ runes_of_ascii " emoji
-}
-")).
-Eval vm_compute in ("<<<M4165>>>" ++ check (runes_of_ascii "MetaData x
-
+Eval vm_compute in ("<<<M2090>>>" ++ check (runes_of_ascii "options{
+_x
+= = true
+} options
+{ o	= /// triple
+false
+    ; chars
+= ""\n"" } root packet	Pad
 /// triple
-	{
-int32  // " ++ [27880; 37322]%N ++ runes_of_ascii "
-    a1  `say ""hi""`
-	,
-
-    }")).
-Eval vm_compute in ("<<<M2739>>>" ++ check (runes_of_ascii "packet int32 ""packet"" = int64 uint64 : char[] 42 `{ , }` options 10")).
-Eval vm_compute in ("<<<M321>>>" ++ check (runes_of_ascii "MetaData // " ++ [128512]%N ++ runes_of_ascii " emoji
-Header { // trailing space 
-u64 falsey ,
-}")).
-Eval vm_compute in ("<<<M235>>>" ++ check (runes_of_ascii "// " ++ [128512]%N ++ runes_of_ascii " emoji
-options {repeatCount = u32 ;tag = ' ' ; } // a // b")).
-Eval vm_compute in ("<<<M1029>>>" ++ check (runes_of_ascii "// packet A { u8 x, }
-MetaData MetaDataX {
-    u8 roots , }")).
-Eval vm_compute in ("<<<M3371>>>" ++ check (runes_of_ascii "packet x { @rightPad // c
-( ) repeat roots Logon `doc` , }")).
-Eval vm_compute in ("<<<M3879>>>" ++ check (runes_of_ascii "MetaData pack {
-}
-
-packet i64_ {
-    uint16 T,// a // b
-}")).
-Eval vm_compute in ("<<<M1139>>>" ++ check (runes_of_ascii "options {
-    // " ++ [27880; 37322]%N ++ runes_of_ascii "
-    len =
-// @lengthOf(
-// c
-3 }
+// packet A { u8 x, }
+{	chars
+    // a // b
+    ,}")).
+Eval vm_compute in ("<<<M2418>>>" ++ check (runes_of_ascii "// c
+packet x { @lengthOf( metadata ) repeat lengthOf
+,a1{
+trueish	,// c
+repeat//	t
+MetaDataX } , , zchar[
+    42	] rootA // `tick` ""quote"" 'q'
+,
+    }
 ")).
-Eval vm_compute in ("<<<M3163>>>" ++ check (runes_of_ascii "packet A { u8 x, } // a
-// b
-packet B {} // c
-// d")).
-Eval vm_compute in ("<<<M2842>>>" ++ check (runes_of_ascii "uint16 int16 ; = char[ @leftPad repeat u16 [ as")).
-Eval vm_compute in ("<<<M2650>>>" ++ check (runes_of_ascii "MetaData M { u8 x `d` , y z `e`, char[3] w, }")).
-Eval vm_compute in ("<<<M3035>>>" ++ check (runes_of_ascii "MetaData M {
-    u8 x `x
-`,
-    T t `x
-`,
-}")).
-Eval vm_compute in ("<<<M4335>>>" ++ check (runes_of_ascii "options {
-    repeatCount = 3/// triple
-}")).
-Eval vm_compute in ("<<<M1097>>>" ++ check (runes_of_ascii "// " ++ [27880; 37322]%N ++ runes_of_ascii "
-packet
-    Header {
-}
-// " ++ [128512]%N ++ runes_of_ascii " emoji
-")).
-Eval vm_compute in ("<<<M2801>>>" ++ check (runes_of_ascii "u64 { @lengthOf( root false i8 repeat")).
-Eval vm_compute in ("<<<M1506>>>" ++ check (runes_of_ascii "packet
-//	t
-// trailing space 
-_x {")).
-Eval vm_compute in ("<<<M3012>>>" ++ check (runes_of_ascii "root packet A {
-    u8 x `a
-b`,
-}")).
-Eval vm_compute in ("<<<M2123>>>" ++ check (runes_of_ascii "options{
+Eval vm_compute in ("<<<M2092>>>" ++ check (runes_of_ascii "options{
+_x
+) true
+} options
+{ o	= /// triple
+false
+    ; chars
+= ""\n"" } root packet	Pad
+/// triple
+// packet A { u8 x, }
+{	chars
+    // a // b
+    ,}")).
+Eval vm_compute in ("<<<M2080>>>" ++ check (runes_of_ascii "options
 _x
 = true
 } options
-{ o")).
-Eval vm_compute in ("<<<M891>>>" ++ check (runes_of_ascii "options {
-zchar	= '\x00' ;
-}
+{ o	= /// triple
+false
+    ; chars
+= ""\n"" } root packet	Pad
+/// triple
+// packet A { u8 x, }
+{	chars
+    // a // b
+    ,}")).
+Eval vm_compute in ("<<<M2318>>>" ++ check (runes_of_ascii "// c
+packet x { @lengthOf( metadata ) repeat lengthOf
+,a1{
+trueish	,// c
+repeat//	t
+MetaDataX , } , zchar[
+    42	]  // `tick` ""quote"" 'q'
+,
+    }
 ")).
-Eval vm_compute in ("<<<M1085>>>" ++ check (runes_of_ascii "options { pack  =  false
-;
-}
-")).
-Eval vm_compute in ("<<<M2599>>>" ++ check (runes_of_ascii "packet A { B { u8 x, } C, }")).
-Eval vm_compute in ("<<<M3253>>>" ++ check (runes_of_ascii "
+Eval vm_compute in ("<<<M2174>>>" ++ check (runes_of_ascii "options{
+_x
+= true
+} options
+{ o	= /// triple
+false
+    ; chars
+= ""\n"" } root packet	Pad
+/// triple
+// packet A { u8 x, }
+{	
+    // a // b
+    ,}")).
+Eval vm_compute in ("<<<M708>>>" ++ check (runes_of_ascii "packet  As
+{ char[] metadata
+`doc`
+, } root packet	int
+{ // packet A { u8 x, }
+zchar[ // @lengthOf(
+007 ] leftPad ,
+} // `tick` ""quote"" 'q'")).
+Eval vm_compute in ("<<<M1651>>>" ++ check (runes_of_ascii "packet
+//	t
+// trailing space 
+_x {
+// packet A { u8 x, }
 // c
-root packet pack { }")).
-Eval vm_compute in ("<<<M1136>>>" ++ check (runes_of_ascii "// packet A { u8 x, }
+char[
+3
+    ] u8x @lengthOf(
+u8x ) , @calculatedFrom(""" ++ [128512]%N ++ runes_of_ascii """ // @lengthOf(
+)
+i1")).
+Eval vm_compute in ("<<<M1418>>>" ++ check (runes_of_ascii "
+packet
+    falsey { Header@calculatedFrom( @calculatedFrom(""packet""  ) , char[
+    0123456789 ] packetx
+    , } // `tick` ""quote"" 'q'")).
+Eval vm_compute in ("<<<M685>>>" ++ check (runes_of_ascii "MetaData
+u128
+    {string	falsey `u8 x,` // c
+,
+trueish
+roots , } options
+    {msg_type =
+/// triple
+// trailing space 
+""" ++ [128512]%N ++ runes_of_ascii """ ; }")).
+Eval vm_compute in ("<<<M1399>>>" ++ check (runes_of_ascii "
+packet packet
+    falsey { Header@calculatedFrom(""packet""  ) , char[
+    0123456789 ] packetx
+    , } // `tick` ""quote"" 'q'")).
+Eval vm_compute in ("<<<M4594>>>" ++ check (runes_of_ascii "
+
+  packet crc { 
+@lengthOf(
+
+    falsey
+
+    )
+Packet  /// triple
+    	`crlf
+line`
+    // trailing space 
+    , }
 
 ")).
-Eval vm_compute in ("<<<M2235>>>" ++ check (runes_of_ascii "options
-{ } options {")).
-Eval vm_compute in ("<<<M2620>>>" ++ check (runes_of_ascii "packet A { @tag(1) }")).
-Eval vm_compute in ("<<<M2646>>>" ++ check (runes_of_ascii "MetaData M { x y, }")).
-Eval vm_compute in ("<<<M2662>>>" ++ check (runes_of_ascii "options { a = 1, }")).
-Eval vm_compute in ("<<<M3135>>>" ++ check (runes_of_ascii "packet A {
-}
-// c" ++ [65279]%N)).
-Eval vm_compute in ("<<<M3093>>>" ++ check (runes_of_ascii "packet A {
-}// c" ++ [8232]%N)).
-Eval vm_compute in ("<<<M1380>>>" ++ check (runes_of_ascii "packet x  { }
+Eval vm_compute in ("<<<M3339>>>" ++ check (runes_of_ascii "root packet matchKey { zchar[ 3 ] pack @calculatedFrom( ""a	b"" ) `doc` , }
+// c
+options { } MetaData A { int8 msg_type , }")).
+Eval vm_compute in ("<<<M1458>>>" ++ check (runes_of_ascii "
+packet
+    falsey { Header@calculatedFrom(""packet""  ) , char[
+    0123456789 ] packetx
+    , , } // `tick` ""quote"" 'q'")).
+Eval vm_compute in ("<<<M1312>>>" ++ check (runes_of_ascii "options{ charz =
+    0 ; rootA = false
+;
+// @lengthOf(
+// packet A { u8 x, }
+As
+//	t
+//x
+=
+    true ; Pad = '\x00' }
 ")).
-Eval vm_compute in ("<<<M248>>>" ++ check (runes_of_ascii "
+Eval vm_compute in ("<<<M1485>>>" ++ check (runes_of_ascii "
+packet
+    falsey { na" ++ [239]%N ++ runes_of_ascii "ve@calculatedFrom(""packet""  ) , char[
+    0123456789 ] packetx
+    , } // `tick` ""quote"" 'q'")).
+Eval vm_compute in ("<<<M1437>>>" ++ check (runes_of_ascii "
+packet
+    falsey { Header@calculatedFrom(""packet""  ) , 
+    0123456789 ] packetx
+    , } // `tick` ""quote"" 'q'")).
+Eval vm_compute in ("<<<M3872>>>" ++ check (runes_of_ascii "
+
+  packet
+o {
+repeat Logon
+
+uint8x
+    ,
+}
+    options	{
+    asx
+	= 
+zchar[
+// c
+	3	]
+stringy=  '\x00'
+
+}")).
+Eval vm_compute in ("<<<M833>>>" ++ check (runes_of_ascii "packet
+chars
+    { @tag(	0123456789) match crc as
+tag { 10
+    : uint8x ,
+[ 42 ]:
+int // " ++ [128512]%N ++ runes_of_ascii " emoji
+,}
+, }
+")).
+Eval vm_compute in ("<<<M3569>>>" ++ check (runes_of_ascii "// top
+root // c0a
+  // c0b
+packet P // c2a
+  // c2b
+{ // c3
+string
+    // c4
+s
+    // c5
+,
+    // c6
+} ")).
+Eval vm_compute in ("<<<M2979>>>" ++ check (runes_of_ascii "packet A {
+  match k as n {
+    [1, ""bb"", 007, ""d"", 5, ""f"", 7, ""h"", 9, ""j"", 11] : B,
+    2 : C
+  },
+}")).
+Eval vm_compute in ("<<<M3040>>>" ++ check (runes_of_ascii "packet A {
+    Inner {
+        u8 x `
+x`,
+        Deep {
+            u8 y `
+x`,
+        },
+    },
+}")).
+Eval vm_compute in ("<<<M2421>>>" ++ check (runes_of_ascii "// c
+packet x { @lengthOf( metadata ) repeat lengthOf
+,a1{
+trueish	,// c
+repeat//	t
+MetaDataX ,")).
+Eval vm_compute in ("<<<M609>>>" ++ check (runes_of_ascii "packet float	{i64 u8x @lengthOf(
+    //x
+    leftPad ) // packet A { u8 x, }
+`line1
+line2`
+,}")).
+Eval vm_compute in ("<<<M2215>>>" ++ check (runes_of_ascii "options
+""it's"" } options { BodyLength= u16 Header= f64 ; u128 =
+    true
+    ; } // a // b")).
+Eval vm_compute in ("<<<M4020>>>" ++ check (runes_of_ascii "MetaData body 
+{ i64
+pack
+	`it's`	,	}
+packet stringy
+
+{
+int16
+
+calculatedFrom , 
+// c
+	}")).
+Eval vm_compute in ("<<<M3287>>>" ++ check (runes_of_ascii "MetaData float { float64 charz `
+` , } root packet // c
+chars { @rightPad ( '0' ) Foo , }")).
+Eval vm_compute in ("<<<M3498>>>" ++ check (runes_of_ascii "packet chars { } packet MetaDataX {
+// c
+@tag( 42 ) i16 string_ , repeat x `say ""hi""` , }")).
+Eval vm_compute in ("<<<M2252>>>" ++ check (runes_of_ascii "options
+{ } options { BodyLength= u16 Header= = f64 ; u128 =
+    true
+    ; } // a // b")).
+Eval vm_compute in ("<<<M2307>>>" ++ check (runes_of_ascii "options
+{ } options { BodyLength= u16 Header= f64 ; #u128 =
+    true
+    ; } // a // b")).
+Eval vm_compute in ("<<<M2268>>>" ++ check (runes_of_ascii "options
+{ } options { BodyLength= u16 Header= f64 ; = u128
+    true
+    ; } // a // b")).
+Eval vm_compute in ("<<<M3238>>>" ++ check (runes_of_ascii "packet metadata { Logon { A `" ++ [28040; 24687; 31867; 22411]%N ++ runes_of_ascii "` , tag o , } ,
+// c
+zchar len `// not a comment` , }")).
+Eval vm_compute in ("<<<M3429>>>" ++ check (runes_of_ascii "packet // c
+o { repeat Logon uint8x , } options { asx = zchar[ 3 ] stringy = '\x00' }")).
+Eval vm_compute in ("<<<M3461>>>" ++ check (runes_of_ascii "packet o { repeat Logon uint8x , } options { asx = zchar[ 3 ] stringy = // c
+'\x00' }")).
+Eval vm_compute in ("<<<M2269>>>" ++ check (runes_of_ascii "options
+{ } options { BodyLength= u16 Header= f64 ; = =
+    true
+    ; } // a // b")).
+Eval vm_compute in ("<<<M3404>>>" ++ check (runes_of_ascii "MetaData body { i64 pack `it's` // c
+, } packet stringy { int16 calculatedFrom , }")).
+Eval vm_compute in ("<<<M2932>>>" ++ check (runes_of_ascii "packet A {
+  match k as n {
+    [1, 22, ""c c"", 4, 5, ""f"", 7] : B
+    2 : C
+  },
+}")).
+Eval vm_compute in ("<<<M3056>>>" ++ check (runes_of_ascii "packet A {
+    u32 crc @calculatedFrom(""\
+""),
+    @calculatedFrom(""\
+"") u8 y,
+}")).
+Eval vm_compute in ("<<<M4176>>>" ++ check (runes_of_ascii "packet A {
+    match k as n {
+        [""a"", 22] : B,
+        2 : C,
+    },
+}")).
+Eval vm_compute in ("<<<M4618>>>" ++ check (runes_of_ascii "  packet  x  // c
+    { @rightPad
+(  )
+repeat
+roots
+	Logon `doc` ,
+    }")).
+Eval vm_compute in ("<<<M1055>>>" ++ check (runes_of_ascii "packet packetx { /// triple
+@rightPad ('0' ) @tag( 007)Logon Pad ,  }
+")).
+Eval vm_compute in ("<<<M3785>>>" ++ check (runes_of_ascii "packet pack {
+    int64 options1,
+    // packet A { u8 x, }
+    //
+}")).
+Eval vm_compute in ("<<<M2872>>>" ++ check (runes_of_ascii "packet A {
+  match k as n {
+    [1, 22, 007] : B
+    2 : C
+  },
+}")).
+Eval vm_compute in ("<<<M4088>>>" ++ check (runes_of_ascii "MetaData M {
+    u8 x `a
+    
+    b`,
+    T t `a
+    
+    b`,
+}")).
+Eval vm_compute in ("<<<M3038>>>" ++ check (runes_of_ascii "packet A {
+    B b `
+x`,
+    B `
+x`,
+    repeat B bs `
+x`,
+}")).
+Eval vm_compute in ("<<<M3249>>>" ++ check (runes_of_ascii "// top
+root // c0
+packet // c1
+pack // c2
+{ // c3
+} // c4
+")).
+Eval vm_compute in ("<<<M2883>>>" ++ check (runes_of_ascii "packet A { Inner { match k as n { [1,22,007] : B, }, }, }")).
+Eval vm_compute in ("<<<M4004>>>" ++ check (runes_of_ascii "// trailing space 
+packet Foo {
+    zchar[255] body,
+}")).
+Eval vm_compute in ("<<<M2861>>>" ++ check (runes_of_ascii "packet A { Inner { match k as n { [1] : B, }, }, }")).
+Eval vm_compute in ("<<<M2831>>>" ++ check (runes_of_ascii "repeat @leftPad false int8 int16 char[ uint64 ]")).
+Eval vm_compute in ("<<<M2611>>>" ++ check (runes_of_ascii "packet A { match k as n { [1,""a"",2] : B, }, }")).
+Eval vm_compute in ("<<<M4517>>>" ++ check (runes_of_ascii "// c
+root packet u128 {
+    chars `it's`,
+}")).
+Eval vm_compute in ("<<<M2612>>>" ++ check (runes_of_ascii "packet A { match k as n { [[1]] : B }, }")).
+Eval vm_compute in ("<<<M2792>>>" ++ check (runes_of_ascii "&b}S=WnA*Kztkm]4ju&E{0O4$QB[x]{2&jMd""VW")).
+Eval vm_compute in ("<<<M4086>>>" ++ check (runes_of_ascii "packet A {
+    u8 x `a
+    
+    b`,
+}")).
+Eval vm_compute in ("<<<M2604>>>" ++ check (runes_of_ascii "packet A { match k as n { 1 : B } }")).
+Eval vm_compute in ("<<<M4494>>>" ++ check (runes_of_ascii "packet	A {	B 
+{ u8
+    x,
+	}
+
+,
+} ")).
+Eval vm_compute in ("<<<M3127>>>" ++ check (runes_of_ascii "packet A {
+ u8 x `d 	`, // c 	
+}")).
+Eval vm_compute in ("<<<M2728>>>" ++ check ([12; 1143; 65533]%N ++ runes_of_ascii ",j^" ++ [65533; 65533]%N ++ runes_of_ascii "t" ++ [65533; 65533; 19; 65533; 65533; 65533; 65533; 65533]%N ++ runes_of_ascii "-
+" ++ [65533; 1407; 65533]%N ++ runes_of_ascii "}^$" ++ [65533; 65533]%N ++ runes_of_ascii "O " ++ [65533]%N)).
+Eval vm_compute in ("<<<M2446>>>" ++ check (runes_of_ascii "f32 f64 float32 float64 float")).
+Eval vm_compute in ("<<<M2643>>>" ++ check (runes_of_ascii "packet A { } x packet B { }")).
+Eval vm_compute in ("<<<M3262>>>" ++ check (runes_of_ascii "root packet pack { } // c
+")).
+Eval vm_compute in ("<<<M634>>>" ++ check (runes_of_ascii "options {
+As = true ; }")).
+Eval vm_compute in ("<<<M59>>>" ++ check (runes_of_ascii "// packet A { u8 x, }
+")).
+Eval vm_compute in ("<<<M4275>>>" ++ check (runes_of_ascii "// packet A { u8 x, }")).
+Eval vm_compute in ("<<<M2540>>>" ++ check (runes_of_ascii ": , ; = ( ) [ ] { }")).
+Eval vm_compute in ("<<<M2103>>>" ++ check (runes_of_ascii "options{
+_x
+= true")).
+Eval vm_compute in ("<<<M3130>>>" ++ check (runes_of_ascii "packet A {
+}
+// c" ++ [8203]%N)).
+Eval vm_compute in ("<<<M3088>>>" ++ check (runes_of_ascii "packet A {
+}// c" ++ [8202]%N)).
+Eval vm_compute in ("<<<M1173>>>" ++ check (runes_of_ascii "packet f32a
+{}
+")).
+Eval vm_compute in ("<<<M4039>>>" ++ check (runes_of_ascii "
 options
-{}")).
+{}
+")).
 Eval vm_compute in ("<<<M2487>>>" ++ check (runes_of_ascii "@lengthOf(")).
-Eval vm_compute in ("<<<M2809>>>" ++ check ([27]%N ++ runes_of_ascii "" ++ [65533; 65533; 8; 65533]%N ++ runes_of_ascii " l")).
-Eval vm_compute in ("<<<M2442>>>" ++ check (runes_of_ascii "uint88")).
-Eval vm_compute in ("<<<M2485>>>" ++ check (runes_of_ascii "@left")).
-Eval vm_compute in ("<<<M2445>>>" ++ check (runes_of_ascii "i8i8")).
-Eval vm_compute in ("<<<M2471>>>" ++ check (runes_of_ascii "'0'")).
-Eval vm_compute in ("<<<M1001>>>" ++ check (runes_of_ascii "  ")).
-Eval vm_compute in ("<<<M2674>>>" ++ check (runes_of_ascii "}")).
+Eval vm_compute in ("<<<M340>>>" ++ check (runes_of_ascii "// " ++ [27880; 37322]%N ++ runes_of_ascii "
+
+")).
+Eval vm_compute in ("<<<M2515>>>" ++ check (runes_of_ascii """a\b""")).
+Eval vm_compute in ("<<<M2838>>>" ++ check (runes_of_ascii "{yr*k")).
+Eval vm_compute in ("<<<M2510>>>" ++ check (runes_of_ascii """a\""")).
+Eval vm_compute in ("<<<M2528>>>" ++ check (runes_of_ascii "007")).
+Eval vm_compute in ("<<<M2520>>>" ++ check (runes_of_ascii "``")).
+Eval vm_compute in ("<<<M2799>>>" ++ check (runes_of_ascii "J")).
